@@ -12,1191 +12,2695 @@ Definition show_fres (r : fres) : string :=
   end.
 Definition check (rs : list rune) : string := digest (show_fres (format_res rs)).
 Definition full (rs : list rune) : string := show_fres (format_res rs).
-Eval vm_compute in ("<<<M1439>>>" ++ check (runes_of_ascii "options { // c1
-LittleEndian = // c3a
-  // c3b
-false
-    // c4
-;
-    // c5
-StringPrefixLenType // c6a
-  // c6b
-= u16 ; // c9a
-  // c9b
-ArrayPrefixLenType // c10a
-  // c10b
-=
-    // c11
-u32 // c12
-; // c13
-} // c14a
-  // c14b
-packet Order
-    // c16
-{ // c17a
-  // c17b
-uint8 // c18a
-  // c18b
-x // c19a
-  // c19b
-,
-    // c20
-repeat string venue , // c24
-} // c25
-packet // c26a
-  // c26b
-Heartbeat // c27
-{ // c28a
-  // c28b
-i64 // c29
-count // c30a
-  // c30b
-,
-    // c31
-zchar[
-    // c32
-1 // c33a
-  // c33b
-] // c34
-Qty
-    // c35
-, // c36
-repeat InX29 {
-    // c39
-InSeqno26
-    // c40
-{ // c41a
-  // c41b
-int64
-    // c42
-f1 , char[
-    // c45
-5
-    // c46
-] // c47a
-  // c47b
-Acct
-    // c48
-,
-    // c49
-Order , // c51
-} // c52
-, repeat
-    // c54
-InSide285 // c55
-{ // c56
-repeat // c57
-Order // c58
-, // c59
-char[ 10 // c61
-] Px // c63
-, // c64
-zchar[ // c65
-9
-    // c66
-] // c67
-OrderId // c68
-, } // c70
-, // c71a
-  // c71b
-char[] // c72a
-  // c72b
-venue // c73
-, // c74
-Order // c75a
-  // c75b
-, // c76a
-  // c76b
-} // c77a
-  // c77b
-, @rightPad // c79a
-  // c79b
-( '\x00' // c81a
-  // c81b
-) // c82
-char[ // c83a
-  // c83b
-4 ]
-    // c85
-clOrdID // c86
-, // c87
+Eval vm_compute in ("<<<M1329>>>" ++ check (runes_of_ascii "packet o { match
+    crc	as roots
+    { 4294967296
+    // " ++ [128512]%N ++ runes_of_ascii " emoji
+    : o ,
+} , u128 @lengthOf(
+    u8x )
+    // 50% %s
+    ,repeat Header
+    // @lengthOf(
+    `say ""hi""`, @rightPad(
+' ' ) repeat string charz
+,string BodyLength
+@calculatedFrom(  ""it's"" )	,
+@leftPad
+(
+'\x00'	) @tag(
+4294967296
+    )repeat
+    a1	{// " ++ [128512]%N ++ runes_of_ascii " emoji
+charz `// not a comment` , _x o, metadata ,
+uint8 MetaDataX	, }
+    // c
+    , repeat u128`two words` ,@lengthOf(
+    metadata ) char[ 0123456789] _x	, repeat Z9_  ``
+    ,//	t
 }
-    // c88
-root // c89
-packet Party // c91a
-  // c91b
-{ // c92a
-  // c92b
-zchar[ // c93a
-  // c93b
-3 // c94a
-  // c94b
-] // c95
-f1 // c96a
-  // c96b
-, // c97a
-  // c97b
-u32 // c98a
-  // c98b
-clOrdID // c99a
-  // c99b
-,
-    // c100
-u32 // c101a
-  // c101b
-Px @lengthOf( Body // c104a
-  // c104b
-) // c105
-, // c106
-match
-    // c107
-clOrdID // c108a
-  // c108b
-as // c109a
-  // c109b
-Body { // c111a
-  // c111b
-[ 180 , 64 ] // c116a
-  // c116b
-: // c117a
-  // c117b
-Heartbeat // c118
-,
-    // c119
-11 // c120
-: // c121a
-  // c121b
-Order // c122
-, } // c124
-, // c125a
-  // c125b
-u32
-    // c126
-Side2 // c127a
-  // c127b
-@calculatedFrom( ""CRC32"" // c129a
-  // c129b
-) // c130
-, // c131
-} ")).
-Eval vm_compute in ("<<<M1732>>>" ++ check (runes_of_ascii "packet x_y_z {
-    packetx {
-        i16 pack `doc`,
-        repeat char[255] leftPad,
-    },
-    u8x,
-    match o as roots {
-        [0123456789] : x_y_z,
-        [""a\\""] : packetx,
-    },
-    repeat charz {
-        int32 i64_ `{ , }`,
-    },
-}
-
-packet x_y_z {
-    @calculatedFrom(""CRC32"")
-    @tag(00)
-    @lengthOf(x)
-    match As as stringy {
-        1 : i64_,
-        // " ++ [27880; 37322]%N ++ runes_of_ascii "
-        [
-            ""it's"", ""1"", ""x y"", 4294967296, ""\n"",
-            ""x y""
-        ] : u128,
-        00 : calculatedFrom,
-        [4294967296, ""// no comment"", 42, 3, ""{,}""] : charz,
-    },
-    @calculatedFrom(""a\\"")
-    Logon A,
-    chars @lengthOf(Logon),
-    @rightPad('0')
-    @tag(0)
-    @rightPad('0')
-    string Foo `a\`,
-}
-
-packet packetx {
-    repeat i64_ {
-        o @lengthOf(A),
-    },
-    @tag(42)
-    repeat char[] crc,
-    @leftPad()
-    u16 roots,
-    falsey @lengthOf(As),
-    repeat Foo {
-        float32 f32a @calculatedFrom(""`tick`""),
-        len `
-        `,
-        // packet A { u8 x, }
-    },
-    @leftPad('\x00')
-    T @calculatedFrom(""a	b"") `" ++ [28040; 24687; 31867; 22411]%N ++ runes_of_ascii "`,
-    char[] trueish `u8 x,`,
-    @lengthOf(falsey)
-    match rootA as BodyLength {
-        // " ++ [128512]%N ++ runes_of_ascii " emoji
-        [""CRC32""] : x,
-        // @lengthOf(
-        // c
-        42 : BodyLength,
-        // trailing space 
-    },
-}")).
-Eval vm_compute in ("<<<M1995>>>" ++ check (runes_of_ascii "// top
-	options
-        // c0
-{
-    // c1
-  chars 
-    // c2
-
-= 
-
-// c3
-    ""a\\"" 
-    // c4
-
-  } 
-// c5
-	packet 
-    // c6
-	  Z9_ 
-// c7
-
-  { 
-        // c8
-match
-    // c9
-    BodyLength 
-    // c10
-		as
-
-    // c11
-	roots
-        // c12
-	{ 
-  // c13
-	""" ++ [28040; 24687]%N ++ runes_of_ascii """ 
-// c14
-  : 
-      // c15
-  falsey 
-
-// c16
-    , 
-    // c17
-      00
-    // c18
-		: 
-    // c19
-  u128 
-// c20
-	0 
-// c21
-	:
-
-    // c22
-  len
-    // c23
-	,  
-      // c24
-    007
-    // c25
-
-  :
-// c26
-f32a 
-// c27
-  } 
-
-    // c28
-	  , 
-      // c29
-	@tag( 
-    // c30
-	  3 
-    // c31
-) 
-	    // c32
-
-	@calculatedFrom(
-
-// c33
-	""`tick`"" 
-	    // c34
-)
-	// c35
-	@leftPad 
-    // c36
-    (
-
-    // c37
-    	' ' 
-      // c38
-		) 
-    // c39
-		string 
-// c40
-	asx
-        // c41
-  ,
-	    // c42
-
-	string
-
-    // c43
-  u 
-// c44
-
-@lengthOf( 
-	    // c45
-options1 
-
-    // c46
-  ) 
-      // c47
-	,
-    // c48
-    float32 
-
-// c49
-	i64_ 
-// c50
-  	@calculatedFrom( 
-        // c51
-
-""a\""b""
-    // c52
-
-	)
-	// c53
-,
-// c54
-  	}
-// c55
-")).
-Eval vm_compute in ("<<<M1771>>>" ++ check (runes_of_ascii "// top
-options {
-    // c1
-    LittleEndian = true;// c5a
-    // c5b
-    FixedStringPadFromLeft = true;
-    FixedStringPadChar = '0';
-    // c13
-}
-
-// c14
-packet Trade {
-    string clOrdID,
-    char[] Px,// c23
-    u32 x,// c26a
-    // c26b
-}// c27
-
-packet Reject {
-    // c30
-    int32 Side2,
-    // c33
-    repeat char[3] clOrdID,
-    i32 tag7,// c42a
-    // c42b
-}// c43a
-
-// c43b
-packet Leg {
-}
-
-root packet Quote {
-    // c51
-    string Side2,
-    string lastPx,
-    // c57
-    InSym58 {
-        int16 OrderId,// c62a
-        // c62b
-        Reject,// c64
-        i8 Qty,
-        // c67
-        i64 venue,
-        f32 Note,// c73
-    },// c75a
-    // c75b
-    char[] count,
-    zchar[9] price,// c83
-    u16 Qty,
-    // c86
-    match Qty as Body {
-        // c91
-        69 : Leg,
-        48 : Trade,
-        // c99
-        51 : Reject,
-        // c103
-    },
-    u16 Acct @calculatedFrom(""CRC32""),// c111a
-    // c111b
-}")).
-Eval vm_compute in ("<<<M1834>>>" ++ check (runes_of_ascii "options {
-    LittleEndian = true;
-    StringPrefixLenType = u64;
-    ArrayPrefixLenType = u8;
-    FixedStringPadChar = '0';
-}
-
-packet Reject {
-    i32 Ref,
-    repeat f64 OrderId,
-    repeat InNote12 {
-        u8 pad0,
-    },
-    @leftPad(' ')
-    char[6] count,
-}
-
-packet Logout {
-    zchar[6] Tail,
-    repeat string venue,
-}
-
-packet Cancel {
-    u64 count,
-    repeat char[5] lastPx,
-    i64 Tail,
-    repeat InF140 {
-        repeat Logout,
-        repeat Reject,
-    },
-}
-
-root packet Trade {
-    repeat InMsgkind39 {
-        repeat Reject,
-        char[4] Px,
-    },
-    string Acct,
-    uint16 price,
-    f32 OrderId,
-    u16 x,
-    u16 clOrdID @lengthOf(Body),
-    match x as Body {
-        178 : Logout,
-        13 : Cancel,
-        174 : Reject,
-    },
-    u16 Flags @calculatedFrom(""CRC32""),
-}")).
-Eval vm_compute in ("<<<M1441>>>" ++ check (runes_of_ascii "options {
-    LittleEndian = false;
-    StringPrefixLenType = u16;
-    ArrayPrefixLenType = u32;
-}
-packet Order {
-    uint8 x,
-    repeat string venue,
-}
-packet Heartbeat {
-    i64 count,
-    zchar[1] Qty,
-    repeat InX29 {
-        InSeqno26 {
-            int64 f1,
-            char[5] Acct,
-            Order,
-        },
-        repeat InSide285 {
-            repeat Order,
-            char[10] Px,
-            zchar[9] OrderId,
-        },
-        char[] venue,
-        Order,
-    },
-    @rightPad('\x00') char[4] clOrdID,
-}
-root packet Party {
-    zchar[3] f1,
-    u32 clOrdID,
-    u32 Px @lengthOf(Body),
-    match clOrdID as Body {
-        [180, 64] : Heartbeat,
-        11 : Order,
-    },
-    u32 Side2 @calculatedFrom(""CR\
-C32""),
-}
-")).
-Eval vm_compute in ("<<<M363>>>" ++ check (runes_of_ascii "packet A {
-repeat
-    o Z9_ ,
-    @calculatedFrom( """ ++ [233]%N ++ runes_of_ascii "t" ++ [233]%N ++ runes_of_ascii """ ) @calculatedFrom(
-    ""a\\"" ) @tag( 42) match Header as
-    // packet A { u8 x, }
-    tag {
-    ""`tick`"" :
-As , [
-    ""\" ++ [233]%N ++ runes_of_ascii """ ] :
-asx[ 3
-,  ""1"", ""\n"" , 007
-,
-    ""\n"" ] :options1 ""abc"" :
-//	t
+    packet packetx // " ++ [27880; 37322]%N ++ runes_of_ascii "
+{ //	t
+@lengthOf( // `tick` ""quote"" 'q'
+pack ) // 50% %s
+@rightPad
+( '\x00')
+repeat char[ 42]
+f32a
 /// triple
-falsey , 4294967296 :	metadata , } ,  @tag(4294967296) tag @calculatedFrom( """ ++ [128512]%N ++ runes_of_ascii """ ) , }
-    // `tick` ""quote"" 'q'
-    packet stringy {
-    char[]
-packetx
-`
-`,string leftPad @lengthOf(float
-    ) ,@tag( //	t
-65535 )	@lengthOf( packetx) @lengthOf( Pad )
+//
+`doc` , @rightPad
+//
+// " ++ [128512]%N ++ runes_of_ascii " emoji
+( '0' )
+BodyLength{	u16 calculatedFrom  @calculatedFrom( ""a\\"" // @lengthOf(
+) `crlf
+line`
+    ,
+}, a1
+    {
+u
+pack , repeat o //
+{ // " ++ [27880; 37322]%N ++ runes_of_ascii "
+match
+int as falsey {  ""CRC32""  :
+uint8x , 7: repeatCount
+    ,
+    ""// no comment"":
+    i8i8 , // " ++ [128512]%N ++ runes_of_ascii " emoji
+65535 : charz , } ,
+} , falsey
+    x_y_z,u16 i64_ @lengthOf(falsey
+) `" ++ [233]%N ++ runes_of_ascii "`// `tick` ""quote"" 'q'
+, } ,
+    match int as T
 // trailing space 
-// " ++ [27880; 37322]%N ++ runes_of_ascii "
-repeatCount BodyLength , // a // b
-char[] A
-    @lengthOf( // packet A { u8 x, }
-a1)
-    `two words` , }
-packet falsey // " ++ [27880; 37322]%N ++ runes_of_ascii "
-{ }")).
-Eval vm_compute in ("<<<M261>>>" ++ check (runes_of_ascii "packet// " ++ [128512]%N ++ runes_of_ascii " emoji
-BodyLength {@calculatedFrom( ""it's"" ) zchar[ 0123456789] Z9_ `it's` , } packet zchar{ @lengthOf(
-rootA )@rightPad ( '0' )// " ++ [27880; 37322]%N ++ runes_of_ascii "
-repeat
-int64
-stringy
-,@lengthOf( lengthOf ) match Pad as o
-// a // b
-//x
-{ [ 10
-    , ""a\""b""] :
-BodyLength, """ ++ [233]%N ++ runes_of_ascii "t" ++ [233]%N ++ runes_of_ascii """ :zchar  3:T },
-} MetaData Logon { uint8x i64_ , } root packet
-/// triple
-// `tick` ""quote"" 'q'
-zchar {
-charz `" ++ [28040; 24687; 31867; 22411]%N ++ runes_of_ascii "` , } packet i64_
-{	u
-`two words`
-// `tick` ""quote"" 'q'
-// c
-, @calculatedFrom(""it's""
-)char[
-    // trailing space 
-    0123456789	] body`it's`
-    ,char[ 255 ]leftPad `two words` , }")).
-Eval vm_compute in ("<<<M1951>>>" ++ check (runes_of_ascii "// top
-options {
-    // c1a
-    // c1b
-    LittleEndian = true;// c5
-    ArrayPrefixLenType = u64;// c9a
-    // c9b
-    FixedStringPadFromLeft = false;
-    // c13
-}// c14a
-
-// c14b
-packet Quote {
-    // c17
-}// c18
-
-root packet Order {
-    // c22
-    i64 Side2,// c25
-    Quote,// c27a
-    // c27b
-    u32 Px,// c30
-    match Px as Body {
-        // c35
-        [119, 147] : Quote,
-    },// c45a
-    // c45b
-    u16 Flags @calculatedFrom(""CRC32""),
-    // c51
-}// c52a
-// c52b")).
-Eval vm_compute in ("<<<M1810>>>" ++ check (runes_of_ascii "options  {
-LittleEndian
-=
-
-false ;
-    StringPrefixLenType
-=
-    u32
-
-;
-    ArrayPrefixLenType 
-= u16
-;} packet
-Party	{@leftPad ( '0'	) char[
-12] Ref ,repeat
-
-    char[
-6	] 
-x ,}
-    packet	Logon
-
-    {	uint32
-clOrdID ,Party ,	}
-
-    root packet
-
-    Ack
-
-{
-    zchar[
-
-    2 
-] f1
-, u32	seqNo 
-,
-
-    u32 Side2
-@lengthOf(  Body) 
-,
-	match  seqNo  as Body 
-{
-43
+// trailing space 
+{7// trailing space 
 :
+    int , }
+, } packet roots { zchar[
+1 ] T @lengthOf( BodyLength
+) //
+`{ , }` , match
+Z9_
+as rootA { 00 :
+f32a  } , @lengthOf( u8x) f64 T@lengthOf(
+    As )
+    `two words`	, i64_ matchKey
+`a\` , @calculatedFrom(""" ++ [233]%N ++ runes_of_ascii "t" ++ [233]%N ++ runes_of_ascii """
+    )  u32 falsey @lengthOf( u128 )
+`two words` , u64 u8x @calculatedFrom(
+    ""it's""  )
+    // a // b
+    `it's`, char[
+    0 ]len@calculatedFrom( """ ++ [128512]%N ++ runes_of_ascii """
+    ) `" ++ [233]%N ++ runes_of_ascii "`
+    , @tag( 255 ) match stringy
+// `tick` ""quote"" 'q'
+//	t
+as
+    Foo
+    { 007 :u	,7
+:BodyLength 1
+// " ++ [27880; 37322]%N ++ runes_of_ascii "
+// " ++ [128512]%N ++ runes_of_ascii " emoji
+: f32a, 4294967296 :
+crc """ ++ [28040; 24687]%N ++ runes_of_ascii """ :chars// c
+,	} ,
+    // " ++ [128512]%N ++ runes_of_ascii " emoji
+    } MetaData
+    // " ++ [27880; 37322]%N ++ runes_of_ascii "
+    matchKey//
+{ } root
+packet pack
+{	@lengthOf( Header
+    )u8 len
+@lengthOf( x_y_z )
+``	, @tag(
+4294967296)repeat
+matchKey{ int8	pack , }
+    ,	@tag(
+    65535 ) @rightPad( )  @lengthOf(Pad ) uint8x//x
+`it's` ,
+    repeat zchar { match uint8x as u128 {""it's""  :
+// " ++ [128512]%N ++ runes_of_ascii " emoji
+// a // b
+chars ,},
+}// " ++ [128512]%N ++ runes_of_ascii " emoji
+, @calculatedFrom( ""x y""  )
+@leftPad
+    ( ' ' )@lengthOf(
+zchar ) float64
+charz	,
+@lengthOf(repeatCount ) repeat f32a
+{ repeat
+i8 _x `it's`, }	, Z9_//x
+@lengthOf( Header
+)
+    `
+` ,
+lengthOf
+x,}")).
+Eval vm_compute in ("<<<M3998>>>" ++ check (runes_of_ascii "
+packet  trueish 
+{
+	pack
+@calculatedFrom(
+
+""1"")  ,zchar[
+
+0
+    ]
+	u8x
+	@calculatedFrom(
+""" ++ [128512]%N ++ runes_of_ascii """ ) ,
+options1@lengthOf( stringy ) `// not a comment` ,
+
+@calculatedFrom(""1""
+	)	char[
+	4294967296 ] uint8x  @lengthOf(
+	int
+)
+
+`
+`  // `tick` ""quote"" 'q'
+	,
+
+    @calculatedFrom(""\" ++ [233]%N ++ runes_of_ascii """
+
+    )uint8  Pad
+
+    `say ""hi""`	, crc Z9_ , @calculatedFrom(
+    ""`tick`""
+)
+	repeat
+
+zchar[1 ]
+    u`
+` ,	match
+BodyLength as
+
+    uint8x
+	{
+	""CRC32"" //x
+      :a1, } ,
+	@calculatedFrom( ""`tick`"") 
+	    // c
+	// " ++ [128512]%N ++ runes_of_ascii " emoji
+@rightPad	( )
+u32 
+len  ,
+@calculatedFrom(
+    ""1"" )
+
+MetaDataX
+
+Header
+`// not a comment` ,
+}MetaData
+
+    uint8x
+	// `tick` ""quote"" 'q'
+  { }
+	packet
+
+    Logon
+{match//x
+	int// @lengthOf(
+
+  as
+string_ 
+{00
+
+    :
+	leftPad  ,
+
+}
+
+    , @lengthOf(
+repeatCount 
+) i64_
+	@calculatedFrom(
+    //x
+	//	t
+    ""\n"" )
+`tab	here`, lengthOf@calculatedFrom(
+""it's""
+
+    )	`line1
+line2` ,
+    T  {repeat 
+zchar[	3 ]
+	string_
+,
+
+    match
+
+    T 
+as	stringy
+	{
+	// @lengthOf(
+4294967296
+:	A 
+
+//	t
+	, 4294967296  : 
+msg_type	, 7
+	:	msg_type , 
+
+    // trailing space 
+	0 
+:
+
+    chars, 1	: asx
+
+,0
+
+:
+
+// 50% %s
+	// a // b
+  float
+
+    ,}  , 
+	// a // b
+
+	// c
+
+	Pad
+
+    @lengthOf(
+	len
+)
+
+    , }
+	,	BodyLength @calculatedFrom(
+	    // " ++ [27880; 37322]%N ++ runes_of_ascii "
+	  //x
+
+  """ ++ [128512]%N ++ runes_of_ascii """  ),
+	repeat // a // b
+      Logon,x
+{ match
+stringy as
+	Header {
+	    // c
+  	[ ""abc"" 
+] :
+
+i64_ ,255
+	:f32a  }
+        // " ++ [128512]%N ++ runes_of_ascii " emoji
+	// `tick` ""quote"" 'q'
+
+,
+
+}
+	,
+	uint32
+    u8x
+
+,  uint32
+
+    int ,}
+
+    MetaData 
+BodyLength	{i8i8
 
 Logon
 
-    ,	93:Party
-
-    , 
-},}
-")).
-Eval vm_compute in ("<<<M1572>>>" ++ check (runes_of_ascii "MetaData o {
-    u32 string_,
-    char[] a1 `crlf
-        line`,
-    int8 options1,
-}
-
-packet Foo {
-    @lengthOf(matchKey)
-    f32 f32a,
-    @tag(0)
-    // @lengthOf(
-    match MetaDataX as trueish {
-        //	t
-        255 : T,
-        4294967296 : pack,
-        3 : falsey,
-        ""1"" : uint8x,
-        7 : u128,
-        4294967296 : MetaDataX,
-    },
-    i32 roots,
-}")).
-Eval vm_compute in ("<<<M285>>>" ++ check (runes_of_ascii "
-MetaData o// a // b
-{ u32 string_, char[]a1
 `crlf
-line` , int8 options1 ,
-} packet
-    Foo{ @lengthOf( matchKey )f32 f32a ,
-@tag(0 ) // @lengthOf(
-match MetaDataX as trueish { //	t
-255 : T ,	4294967296 : pack
-    // a // b
-    ,	3 :falsey ,
-""1"" :uint8x ,7
-    : u128 4294967296 :
+line`  ,
+	int
+    // " ++ [128512]%N ++ runes_of_ascii " emoji
+    // @lengthOf(
+  options1 
+`say ""hi""`
+
+, Foo tag  
+  //	t
+// `tick` ""quote"" 'q'
+  ,
+
+} root
+
+packet
+	lengthOf
+
+{
+
+    repeat
+
+    zchar[  255]
+
+    lengthOf
+
+    `// not a comment`// " ++ [128512]%N ++ runes_of_ascii " emoji
+    , }")).
+Eval vm_compute in ("<<<M1051>>>" ++ check (runes_of_ascii "packet
+As  { repeat char[10
+    // `tick` ""quote"" 'q'
+    ] metadata  `{ , }` , match u
+    as// packet A { u8 x, }
+trueish
+    { 10 : As
+    ,	} ,@tag( 007 )	repeat metadata {trueish ,  repeat  msg_type,
+// " ++ [128512]%N ++ runes_of_ascii " emoji
+// trailing space 
+} , metadata `{ , }`,zchar
+`line1
+line2` ,
+    match Z9_ as
+    o { [ ""x y""
+    , """ ++ [128512]%N ++ runes_of_ascii """ ] : u8x // a // b
+, ""CRC32""
+: o
+    255:
+u128 , // packet A { u8 x, }
+[ 10,007
+, 10 , 7 , """ ++ [233]%N ++ runes_of_ascii "t" ++ [233]%N ++ runes_of_ascii """	]
+: body
+    // @lengthOf(
+    , } , // trailing space 
+repeat char[ //	t
+00
+    ] len,match  u
+as Packet {0123456789:
+    // packet A { u8 x, }
+    repeatCount
+    [ 0 ,	""1""
+    ,
+65535 //
+, // " ++ [27880; 37322]%N ++ runes_of_ascii "
+007  ,	00
+]// a // b
+: i64_ , ""CRC32""// trailing space 
+:
+packetx , }, zchar[007 ]	Logon @calculatedFrom(
+""""
+    ), char[ 00 ] msg_type@lengthOf( Logon ) , // c
+} packet tag//x
+{ zchar[
+/// triple
+// trailing space 
+42
+    ] string_ `doc` ,}  packet len{
+char[ 0123456789] leftPad @calculatedFrom( // `tick` ""quote"" 'q'
+""abc"")	`" ++ [233]%N ++ runes_of_ascii "`
+    ,char[ 00
+//
+// trailing space 
+]
+int
+    `it's` , match
+    a1
+as BodyLength { 3 : matchKey
+[
+00 ] : leftPad
+    } , repeat string
+    //x
+    Logon`a\` ,
+    @lengthOf( float)	repeat i8i8
+`it's` , @tag( 0123456789 ) repeat i8 matchKey `" ++ [28040; 24687; 31867; 22411]%N ++ runes_of_ascii "`
+,} // 50% %s
+MetaData
+    stringy { }
+    /// triple
+    packet i64_ { match // 50% %s
+i64_ as roots
+    {  ""\n"" : roots[  0123456789 ,1 ] :
+x_y_z
+,
+10 :
+i8i8, // @lengthOf(
+3
+    : // packet A { u8 x, }
+Z9_
+, [	""packet"", 255
+    ]: Pad, [ 007
+    , 0123456789
+, 1 ,
+    4294967296]  : tag ,} , } 	 ")).
+Eval vm_compute in ("<<<M916>>>" ++ check (runes_of_ascii "packet // `tick` ""quote"" 'q'
+x
+    {zchar[
+10] leftPad ,
+@leftPad () char[
+10
+]
+repeatCount `crlf
+line` , @rightPad
+// trailing space 
+// 50% %s
+( ' '  ) @lengthOf(Header
+) @tag( 007 //	t
+) A @lengthOf( rootA
+    ) `doc`
+,@tag( 7)
+@rightPad	(
+//x
+// `tick` ""quote"" 'q'
+' ') @leftPad ( )
+match repeatCount	as BodyLength
+    {  3
+: tag ,
+65535
+    : o
+    ,[ ""it's"" , 3
+] :
+    i64_
+, 00:
+u128, """" :
+    Logon
+    , } , string // packet A { u8 x, }
+pack
+    // trailing space 
+    ,calculatedFrom
+asx
+// " ++ [128512]%N ++ runes_of_ascii " emoji
+// `tick` ""quote"" 'q'
+, } root packet x_y_z  { packetx  , }
+    packet
+    // " ++ [128512]%N ++ runes_of_ascii " emoji
+    lengthOf{	i32	x `100% of %d` ,
+    match
+    u
+//
+// packet A { u8 x, }
+as
+    packetx { [
+//x
+//x
+""\" ++ [233]%N ++ runes_of_ascii """	,
     // " ++ [27880; 37322]%N ++ runes_of_ascii "
-    MetaDataX
-, } , i32 //
-roots
-, }")).
-Eval vm_compute in ("<<<M1860>>>" ++ check (runes_of_ascii "  // top
-  options 	 // c0a
-	  // c0b
-  	{	// c1a
-// c1b
-	LittleEndian 
-
-// c2
-=
-
-    true	// c4a
-	  // c4b
-;  // c5a
-	// c5b
-
-}	// c6
-    root // c7
-
-packet 
-// c8
-  P  // c9a
-	// c9b
-
-  { 
-// c10
-
-	repeat
-	char
-
-cs// c13
-  , // c14a
-		// c14b
-    u8 // c15
-    x // c16
-  ,  // c17
-	} ")).
-Eval vm_compute in ("<<<M1487>>>" ++ check (runes_of_ascii "packet P1 {
-    u8 a,
-}
-
-packet P2 {
-    P1,
-}
-
-packet P3 {
-    P2,
-    P1,
-}
-
-packet P4 {
-    repeat P3,
-    P2,
-}
-
-root packet P5 {
-    P4,
-    P3,
-    P1,
-    u8 K,
-    match K as Body {
-        4 : P4,
-        3 : P3,
-        2 : P2,
-        1 : P1,
+    255
+    ,
+// a // b
+// c
+65535  , 0123456789 //	t
+]
+: Z9_, } , repeat char[007 ] // c
+packetx, match	metadata
+as repeatCount
+    { [ 1	, 10
+] :
+// c
+/// triple
+x_y_z , 7 : T ,
+}, float trueish ,  T
+@lengthOf( A )  , match
+    charz as
+// " ++ [27880; 37322]%N ++ runes_of_ascii "
+//x
+uint8x {""" ++ [128512]%N ++ runes_of_ascii """
+    :
+BodyLength }
+    , repeat
+trueish
+{i64_
+    /// triple
+    { string f32a @calculatedFrom(""`tick`"" ) `// not a comment` ,} ,}
+    ,} root packet float {@calculatedFrom(
+    ""x y"") match // " ++ [27880; 37322]%N ++ runes_of_ascii "
+Packet
+as
+Foo {
+[ ""it's"" ]
+    : u , 65535
+    // " ++ [27880; 37322]%N ++ runes_of_ascii "
+    : u128, 007 : u
+,
+[ 00] //	t
+:
+    calculatedFrom ,/// triple
+[  42 ] : tag } , }")).
+Eval vm_compute in ("<<<M3670>>>" ++ check (runes_of_ascii "packet lengthOf {
+    @lengthOf(uint8x)
+    // " ++ [27880; 37322]%N ++ runes_of_ascii "
+    @lengthOf(Pad)
+    // trailing space 
+    a1 @calculatedFrom(""packet""),
+    @lengthOf(i8i8)
+    repeat o {
+        zchar[7] leftPad @calculatedFrom(""CRC32""),
+        trueish @lengthOf(trueish),
+        repeat u16 zchar `line1
+        line2`,
+        repeat uint8 f32a `say ""hi""`,
+        // @lengthOf(
     },
+    match uint8x as T {
+        //	t
+        0 : Logon,
+        0123456789 : Logon,
+        ""{,}"" : stringy,
+    },
+    leftPad @calculatedFrom(""{,}"") `" ++ [233]%N ++ runes_of_ascii "`,
+    @calculatedFrom(""1"")
+    // `tick` ""quote"" 'q'
+    string_ {
+        match Header as leftPad {
+            [255] : x,
+            [7] : u8x,
+            /// triple
+            [
+                3, """ ++ [128512]%N ++ runes_of_ascii """, 255, ""packet"", ""a	b"",
+                7, 1
+            ] : crc,
+            ""x y"" : string_,
+            [42, ""`tick`""] : zchar,
+            // trailing space 
+        },
+    },
+}// trailing space 
+
+packet u128 {
+    i16 leftPad @calculatedFrom(""packet""),// " ++ [128512]%N ++ runes_of_ascii " emoji
+    i64_ @calculatedFrom(""" ++ [128512]%N ++ runes_of_ascii """),
+    repeat lengthOf,
+    As,
+    // `tick` ""quote"" 'q'
+    repeat A {
+        repeat string _x `{ , }`,
+    },
+}
+
+packet crc {
+}
+
+MetaData float {
+    // `tick` ""quote"" 'q'
+    int16 roots,
+    i32 i8i8,
 }")).
-Eval vm_compute in ("<<<M1694>>>" ++ check (runes_of_ascii "packet T {
-}
-
-MetaData i8i8 {
-    calculatedFrom u128 `u8 x,`,
-    string_ a1 `" ++ [233]%N ++ runes_of_ascii "`,
-    Foo int,
-    zchar[007] chars,
-    pack x,
-    crc repeatCount,
-}
-
-packet options1 {
-    @tag(1)
-    char[1] f32a,
-    _x @lengthOf(_x) ``,
-}// " ++ [128512]%N ++ runes_of_ascii " emoji")).
-Eval vm_compute in ("<<<M517>>>" ++ check (runes_of_ascii "options
-{
-matchKey = 42/// triple
-x='0' ;
-// packet A { u8 x, }
-//
-charz
-=
-// packet A { u8 x, }
+Eval vm_compute in ("<<<M1323>>>" ++ check (runes_of_ascii "//	t
+root	packet
+    charz
+    { @calculatedFrom(
+/// triple
 // trailing space 
-true  ; } MetaData BodyLength
-{
-uint8
-pack,zchar[ 1]float ,  float32 x_y_z x_y_z `` ,u32
-_x,i16 body  , }
-")).
-Eval vm_compute in ("<<<M412>>>" ++ check (runes_of_ascii "options
-{
-matchKey = 42/// triple
-x x='0' ;
-// packet A { u8 x, }
-//
-charz
-=
-// packet A { u8 x, }
-// trailing space 
-true  ; } MetaData BodyLength
-{
-uint8
-pack,zchar[ 1]float ,  float32 x_y_z `` ,u32
-_x,i16 body  , }
-")).
-Eval vm_compute in ("<<<M538>>>" ++ check (runes_of_ascii "options
-{
-matchKey = 42/// triple
-x='0' ;
-// packet A { u8 x, }
-//
-charz
-=
-// packet A { u8 x, }
-// trailing space 
-true  ; } MetaData BodyLength
-{
-uint8
-pack,zchar[ 1]float ,  float32 x_y_z `` ,u32
-,_x i16 body  , }
-")).
-Eval vm_compute in ("<<<M496>>>" ++ check (runes_of_ascii "options
-{
-matchKey = 42/// triple
-x='0' ;
-// packet A { u8 x, }
-//
-charz
-=
-// packet A { u8 x, }
-// trailing space 
-true  ; } MetaData BodyLength
-{
-uint8
-pack,zchar[ 1 float ,  float32 x_y_z `` ,u32
-_x,i16 body  , }
-")).
-Eval vm_compute in ("<<<M521>>>" ++ check (runes_of_ascii "options
-{
-matchKey = 42/// triple
-x='0' ;
-// packet A { u8 x, }
-//
-charz
-=
-// packet A { u8 x, }
-// trailing space 
-true  ; } MetaData BodyLength
-{
-uint8
-pack,zchar[ 1]float ,  float32 x_y_z  ,u32
-_x,i16 body  , }
-")).
-Eval vm_compute in ("<<<M511>>>" ++ check (runes_of_ascii "options
-{
-matchKey = 42/// triple
-x='0' ;
-// packet A { u8 x, }
-//
-charz
-=
-// packet A { u8 x, }
-// trailing space 
-true  ; } MetaData BodyLength
-{
-uint8
-pack,zchar[ 1]float ,   x_y_z `` ,u32
-_x,i16 body  , }
-")).
-Eval vm_compute in ("<<<M13>>>" ++ check (runes_of_ascii "packet crc {
-@tag(  0123456789// " ++ [128512]%N ++ runes_of_ascii " emoji
-) i64 uint8x , }
-MetaData i8i8 {
-    zchar[
-    65535 ] int, }	packet lengthOf  {
-// trailing space 
-//	t
-@leftPad	('0')	falsey int ,	}
+""\n""
+)@rightPad // packet A { u8 x, }
+('0'
+    )u8
+    a1 , Logon
+``
+, match zchar as charz{ 255:
+calculatedFrom , //
+[  ""1"" ,""a\\"",
+""a\""b"" ,
 // @lengthOf(
+// trailing space 
+00  , 65535	]:
+metadata // packet A { u8 x, }
+,
+// a // b
+// " ++ [128512]%N ++ runes_of_ascii " emoji
+255: Pad
+, 255 : calculatedFrom[
+// " ++ [128512]%N ++ runes_of_ascii " emoji
+// " ++ [27880; 37322]%N ++ runes_of_ascii "
+255	]
+    : body ,
+    //
+    [ ""CRC32"" ,
+// @lengthOf(
+/// triple
+0 ,	""{,}"" , 0123456789 , 0 ,
+00 ] : string_} //x
+, repeat string roots
+, repeat
+    int{ char[]//
+tag ,
+    repeat //	t
+Logon
+Foo , _x // `tick` ""quote"" 'q'
+zchar , zchar[ 10
+] asx ,
+}
+,
+    repeat char[]
+lengthOf
+    , MetaDataX
+{
+    // packet A { u8 x, }
+    char[]
+    msg_type ,repeat o
+{ repeat float f32a
+,char packetx , char[] stringy
+,
+},repeat float// " ++ [27880; 37322]%N ++ runes_of_ascii "
+{ Pad `u8 x,` , repeat
+string_ i64_ // trailing space 
+, }
+    ,  match a1 as Header { ""1"": Z9_
+,}
+    , } , @calculatedFrom( ""a\""b"" ) @calculatedFrom(	""`tick`""
+)	@calculatedFrom( ""1""	) match trueish as matchKey { ""it's"" :
+pack ,
+007//x
+:  trueish 0123456789 : lengthOf
+// a // b
+// `tick` ""quote"" 'q'
+,
+} ,// 50% %s
+} //x")).
+Eval vm_compute in ("<<<M1049>>>" ++ check (runes_of_ascii "root
+packet rootA {repeat
+    calculatedFrom
+//	t
+// packet A { u8 x, }
+body ,T ,
+@tag( 10 ) // " ++ [128512]%N ++ runes_of_ascii " emoji
+repeat i8i8,	match
+f32a
+as
+o  {
+    [
+""CRC32""]  :
+trueish, },	match
+    u8x	as u128 {// trailing space 
+""CRC32"" :	x,0 // a // b
+: repeatCount
+    , """ ++ [128512]%N ++ runes_of_ascii """ : Packet,
+""""	:repeatCount,
+    3 :
+    //	t
+    u
+//x
+// " ++ [128512]%N ++ runes_of_ascii " emoji
+} , repeat
+    char[0//x
+]
+    f32a,float,	int64 Pad @lengthOf(
+u8x// " ++ [128512]%N ++ runes_of_ascii " emoji
+) /// triple
+, } // trailing space 
+packet
+calculatedFrom { u8x
+// a // b
+// `tick` ""quote"" 'q'
+,@rightPad('\x00'
+) As @calculatedFrom( ""\n"" ) , charz,	repeat float64 Packet ,match calculatedFrom // " ++ [128512]%N ++ runes_of_ascii " emoji
+as T  {
+""" ++ [128512]%N ++ runes_of_ascii """ :As
+    //x
+    , } // trailing space 
+,} // " ++ [27880; 37322]%N ++ runes_of_ascii "
+packet asx { @lengthOf( //	t
+trueish
+) @tag(
+1 ) repeat len
+{ BodyLength ,metadata `line1
+line2` , repeat falsey`it's`,  Header { i8i8 chars `say ""hi""`// c
+, string _x @lengthOf( msg_type	)
+,
+} , } , @lengthOf( f32a	) @lengthOf( i64_ ) @rightPad(  '0'
+) leftPad `tab	here` , //	t
+u64
+    BodyLength
+    ``
+,	charz `" ++ [28040; 24687; 31867; 22411]%N ++ runes_of_ascii "`, }
+MetaData Pad
+{ u16 u`u8 x,` ,
+    }MetaData
+calculatedFrom { }
 ")).
-Eval vm_compute in ("<<<M1792>>>" ++ check (runes_of_ascii "packet A {
-    Inner {
-        u8 x `a
-                
-                b`,
-        Deep {
-            u8 y `a
-                        
-                        b`,
+Eval vm_compute in ("<<<M1235>>>" ++ check (runes_of_ascii "// a // b
+packet chars{}
+MetaData o	{ } packet _x { // @lengthOf(
+@calculatedFrom( ""// no comment"" ) @lengthOf( Header)
+    @calculatedFrom( ""{,}"" ) match	roots	as  trueish{
+    // packet A { u8 x, }
+    """ ++ [233]%N ++ runes_of_ascii "t" ++ [233]%N ++ runes_of_ascii """ : string_ 00 :Pad ,
+10 :  len , [00  , ""CRC32"" ]
+:
+    A , /// triple
+}
+    , @leftPad( ' ' )// " ++ [128512]%N ++ runes_of_ascii " emoji
+uint64 T@calculatedFrom(
+    ""1""
+    )	,
+x @calculatedFrom( """ ++ [28040; 24687]%N ++ runes_of_ascii """ // " ++ [27880; 37322]%N ++ runes_of_ascii "
+) `u8 x,` , @tag( 255
+    ) u8 uint8x ,
+rootA { match calculatedFrom as As
+    {	""" ++ [28040; 24687]%N ++ runes_of_ascii """
+:Logon
+, } , repeat int32 a1 `line1
+line2`,
+    match
+options1 as body { ""\" ++ [233]%N ++ runes_of_ascii """ : x ,[1 ,  007 ,10 , 007
+, ""{,}""
+    ] : msg_type
+,10 :// trailing space 
+lengthOf , }
+, },	@lengthOf( int )uint64 lengthOf @calculatedFrom( ""`tick`"" )  ,char[ 4294967296 ] Logon
+    `tab	here`, @rightPad(
+    )
+    //
+    repeatCount @calculatedFrom(""`tick`"") `it's` ,	tag _x // c
+, } options { repeatCount =
+    char i8i8 = '\x00' zchar =	""\" ++ [233]%N ++ runes_of_ascii """ ; Header
+= // a // b
+4294967296 } options{
+options1
+    // " ++ [27880; 37322]%N ++ runes_of_ascii "
+    =  ""\n""
+    /// triple
+    ; }
+")).
+Eval vm_compute in ("<<<M4052>>>" ++ check (runes_of_ascii "packet Z9_ {
+    @rightPad('\x00')
+    repeat Header options1,
+    Header MetaDataX ``,
+    zchar[0] o,
+}
+
+packet chars {
+    // `tick` ""quote"" 'q'
+}
+
+packet len {
+    repeat char[] Foo,
+    @rightPad('0')
+    zchar[007] a1 `" ++ [233]%N ++ runes_of_ascii "`,
+    repeat BodyLength leftPad,
+}
+
+root packet u8x {
+    f64 lengthOf @calculatedFrom(""CRC32""),
+    string zchar @lengthOf(int) `tab	here`,
+    int calculatedFrom,
+    @lengthOf(As)
+    match falsey as asx {
+        65535 : _x,
+        [1] : u,
+        007 : uint8x,
+        00 : f32a,
+        """ ++ [233]%N ++ runes_of_ascii "t" ++ [233]%N ++ runes_of_ascii """ : Packet,
+        [42, ""a\""b""] : len,
+    },
+    @lengthOf(stringy)
+    @calculatedFrom(""1"")
+    repeat A {
+        char[] lengthOf `
+                `,
+    },
+    MetaDataX @calculatedFrom("""") `it's`,
+    @lengthOf(T)
+    match Foo as crc {
+        10 : trueish,
+        42 : Pad,
+        // c
+        [4294967296, ""// no comment"", ""{,}""] : float,
+    },
+    @lengthOf(u8x)
+    a1 @calculatedFrom(""\" ++ [233]%N ++ runes_of_ascii """),
+}// a // b")).
+Eval vm_compute in ("<<<M4395>>>" ++ check (runes_of_ascii "root packet len {
+    match body as a1 {
+        10 : uint8x,
+    },
+    char[10] zchar,
+    roots @lengthOf(u) `" ++ [28040; 24687; 31867; 22411]%N ++ runes_of_ascii "`,
+    float @calculatedFrom(""a	b""),
+    @lengthOf(Packet)
+    zchar @lengthOf(body) `
+        `,// `tick` ""quote"" 'q'
+    @tag(255)
+    repeat Packet {
+        repeat char falsey `" ++ [28040; 24687; 31867; 22411]%N ++ runes_of_ascii "`,
+        repeat T {
+            char[] chars,// @lengthOf(
+            repeat f32a {
+                repeat char[] falsey `{ , }`,
+            },
+        },
+        // a // b
+        // " ++ [27880; 37322]%N ++ runes_of_ascii "
+        string int,
+        match float as i64_ {
+            // 50% %s
+            [4294967296, ""\n""] : A,
+            ""packet"" : roots,
+            3 : float,
+            // `tick` ""quote"" 'q'
+            [0123456789, 255, 0, ""abc"", """ ++ [128512]%N ++ runes_of_ascii """] : charz,
+        },
+    },
+}
+
+root packet tag {
+}
+
+MetaData repeatCount {
+    // " ++ [128512]%N ++ runes_of_ascii " emoji
+    roots Logon ``,
+    char[4294967296] packetx,
+    uint32 Foo,//x
+}")).
+Eval vm_compute in ("<<<M3515>>>" ++ check (runes_of_ascii "// top
+packet // c0
+P1 // c1
+{ // c2
+u8 // c3a
+  // c3b
+a
+    // c4
+, // c5a
+  // c5b
+} // c6
+packet P2 // c8a
+  // c8b
+{ P1 // c10a
+  // c10b
+, // c11a
+  // c11b
+} // c12a
+  // c12b
+packet
+    // c13
+P3 // c14
+{ // c15a
+  // c15b
+P2 // c16a
+  // c16b
+,
+    // c17
+P1
+    // c18
+, } // c20a
+  // c20b
+packet // c21
+P4 // c22a
+  // c22b
+{ // c23
+repeat P3 // c25
+, // c26
+P2 // c27a
+  // c27b
+, // c28
+} // c29
+root // c30
+packet // c31
+P5 // c32a
+  // c32b
+{ P4
+    // c34
+, // c35
+P3 // c36a
+  // c36b
+, // c37
+P1
+    // c38
+,
+    // c39
+u8
+    // c40
+K // c41a
+  // c41b
+, // c42a
+  // c42b
+match // c43a
+  // c43b
+K
+    // c44
+as Body // c46
+{
+    // c47
+4 : // c49a
+  // c49b
+P4 ,
+    // c51
+3 :
+    // c53
+P3 , // c55
+2 : // c57
+P2 // c58a
+  // c58b
+, 1
+    // c60
+:
+    // c61
+P1 // c62a
+  // c62b
+,
+    // c63
+} , // c65a
+  // c65b
+} // c66a
+  // c66b
+")).
+Eval vm_compute in ("<<<M4339>>>" ++ check (runes_of_ascii "
+// " ++ [27880; 37322]%N ++ runes_of_ascii "
+MetaData
+
+rootA{ f64
+    As 
+,
+	f64	//
+
+int
+    `two words`// `tick` ""quote"" 'q'
+	  ,
+f32 	 //x
+	body 	 // " ++ [128512]%N ++ runes_of_ascii " emoji
+
+`say ""hi""`
+    ,
+zchar[
+4294967296	] 	 /// triple
+    	x
+,  // a // b
+    uint32
+    // " ++ [27880; 37322]%N ++ runes_of_ascii "
+    	// c
+      lengthOf
+    `
+`
+, 
+}
+root packet
+
+pack {
+
+    match  pack
+	as 
+repeatCount
+
+{""CRC32"" :
+crc  1
+
+    : 
+calculatedFrom,  [
+	""packet""
+    ,
+""{,}""
+	, 10
+	, ""a\\""
+	] :
+    float
+    , //	t
+  ""packet"" : _x
+	,	10 :o
+, }  ,match  a1
+    as
+T
+
+{ 65535
+
+    : 
+Z9_
+0: _x ,	},	u64 
+Pad//	t
+	`" ++ [233]%N ++ runes_of_ascii "` ,@calculatedFrom( ""packet"")MetaDataX pack
+	, char[007
+]  uint8x ,i8i8 @lengthOf(
+msg_type
+) `u8 x,`
+, @rightPad  ( '\x00'
+
+    ) string_`" ++ [233]%N ++ runes_of_ascii "`	,
+
+    }
+
+    root
+	packet a1
+	{  }
+    MetaData
+
+x_y_z
+{ i16
+roots
+    `say ""hi""` 
+    /// triple
+    	// `tick` ""quote"" 'q'
+  ,}")).
+Eval vm_compute in ("<<<M4471>>>" ++ check (runes_of_ascii "
+options  {// 50% %s
+  	}
+packet
+Packet  { @leftPad
+
+    ( '\x00'
+) x_y_z
+
+    , @tag(	3 )  repeat
+
+string
+
+    stringy  ,
+	Foo {  Header
+@lengthOf(  repeatCount ) , 
+	// `tick` ""quote"" 'q'
+		repeat
+
+    falsey
+
+    Header
+
+,	uint8x roots
+	    // " ++ [128512]%N ++ runes_of_ascii " emoji
+	// c
+	,
+
+/// triple
+  }
+,
+	int64
+calculatedFrom
+, 
+}root packet 
+rootA { i8i8  string_
+, zchar[ 0 
+]crc
+
+    @calculatedFrom( ""a	b""  //x
+) , string_
+
+{ 
+pack
+
+    ,
+
+x_y_z crc
+	`" ++ [28040; 24687; 31867; 22411]%N ++ runes_of_ascii "`  ,  }
+, 
+@leftPad
+(
+'0') match
+    int as// @lengthOf(
+	body {	""" ++ [233]%N ++ runes_of_ascii "t" ++ [233]%N ++ runes_of_ascii """ :	tag , ""1"" :
+// packet A { u8 x, }
+// @lengthOf(
+    charz 
+, 
+""\n""
+
+:
+MetaDataX
+, 
+""a	b"":
+	repeatCount , //	t
+	  """"
+    : 
+leftPad
+[ ""\n"" , ""// no comment""  ] :lengthOf
+,} , @lengthOf( len)	int32 
+Pad
+// c
+	// @lengthOf(
+`line1
+line2` ,  }")).
+Eval vm_compute in ("<<<M4251>>>" ++ check (runes_of_ascii "root packet int{}
+    packet
+    Header	// packet A { u8 x, }
+
+{	@calculatedFrom(
+
+""""
+)@calculatedFrom(
+
+    ""1""
+) @calculatedFrom(
+    ""\" ++ [233]%N ++ runes_of_ascii """
+)	//	t
+rootA
+`crlf
+line`,
+} packet 
+leftPad
+{
+    u32 
+o
+    @calculatedFrom(
+""packet""  )	`{ , }`	,
+body
+    @lengthOf(
+roots	)	,i64
+	Header  `tab	here`,
+
+    string
+x_y_z	// trailing space 
+  `say ""hi""`  // packet A { u8 x, }
+  ,zchar[0
+] a1
+	`say ""hi""`	// @lengthOf(
+
+  , 
+uint8 T 
+, @calculatedFrom(
+""abc""
+
+    ) A@lengthOf( matchKey )
+    `` 
+        // @lengthOf(
+	  // " ++ [27880; 37322]%N ++ runes_of_ascii "
+      , @calculatedFrom(
+""1""
+
+)
+    repeat
+u32 falsey 
+  // packet A { u8 x, }
+	// " ++ [27880; 37322]%N ++ runes_of_ascii "
+    ,@lengthOf(
+
+    BodyLength
+)// `tick` ""quote"" 'q'
+	repeat 
+uint16
+chars`tab	here` 
+, 
+}MetaData
+    body  {
+} ")).
+Eval vm_compute in ("<<<M1247>>>" ++ check (runes_of_ascii "packet  x_y_z{string	BodyLength `crlf
+line` ,
+    @tag( 007 /// triple
+) i32 As// packet A { u8 x, }
+@calculatedFrom( ""`tick`"")`doc`	,  @tag( 0123456789)  @calculatedFrom( ""CRC32""
+)zchar[
+// `tick` ""quote"" 'q'
+// trailing space 
+007
+]
+stringy @lengthOf( zchar)
+, @calculatedFrom(
+// c
+//x
+""CRC32"" ) Z9_ { Logon , },// " ++ [128512]%N ++ runes_of_ascii " emoji
+packetx@lengthOf( zchar // packet A { u8 x, }
+) ,
+    repeat string Header
+, repeat u32 f32a
+`u8 x,` // packet A { u8 x, }
+,char trueish , uint8x{
+roots	o // a // b
+, repeat f32 msg_type, uint8 falsey	@calculatedFrom(
+    // 50% %s
+    """ ++ [128512]%N ++ runes_of_ascii """
+    //
+    )
+,repeat
+    packetx	{  i16 //
+Packet@lengthOf( //	t
+trueish ) , } ,
+} , @tag(
+0
+) crc@calculatedFrom(	""" ++ [233]%N ++ runes_of_ascii "t" ++ [233]%N ++ runes_of_ascii """	) , }
+")).
+Eval vm_compute in ("<<<M4252>>>" ++ check (runes_of_ascii "packet u 
+{// @lengthOf(
+	match
+Foo
+	as 
+a1{ [
+	65535
+]
+//
+	:
+
+chars	,	} ,body @calculatedFrom(
+	// `tick` ""quote"" 'q'
+	""CRC32"") 
+,
+
+// trailing space 
+  	// `tick` ""quote"" 'q'
+	char[	//	t
+
+  0]
+matchKey@calculatedFrom( ""\" ++ [233]%N ++ runes_of_ascii """ ) 
+, 
+}
+// trailing space 
+  // " ++ [27880; 37322]%N ++ runes_of_ascii "
+packet
+
+crc {
+    }	packet
+    Foo{  @calculatedFrom( """ ++ [28040; 24687]%N ++ runes_of_ascii """ ) @tag( 7	)
+
+    @calculatedFrom(
+
+    ""\" ++ [233]%N ++ runes_of_ascii """)
+	match
+    stringy
+	as
+
+    pack {  // `tick` ""quote"" 'q'
+
+7
+:
+	string_  ,
+
+    3
+: 
+calculatedFrom
+
+,
+""`tick`""
+
+:i64_ , [
+	""" ++ [128512]%N ++ runes_of_ascii """ 
+// c
+  	] 
+:
+    tag
+    ,	[ ""CRC32""]:
+rootA
+,  }
+,  packetx@lengthOf(
+calculatedFrom  // @lengthOf(
+
+  )
+`a\` 
+,
+
+    i32 Foo,  i16
+    calculatedFrom,
+	}")).
+Eval vm_compute in ("<<<M863>>>" ++ check (runes_of_ascii "
+root
+packet MetaDataX // 50% %s
+{ @lengthOf( Foo /// triple
+)
+@rightPad  ( ) //	t
+int ,repeat //x
+zchar  `// not a comment` ,
+@tag(
+007 ) i32 stringy @lengthOf( a1 ) `a\` , @lengthOf(
+    a1 )
+rootA trueish , char[ 10 ]
+repeatCount`// not a comment`// packet A { u8 x, }
+, match // a // b
+Header as
+len
+{ 4294967296
+:x ,
+[ ""it's"" // " ++ [27880; 37322]%N ++ runes_of_ascii "
+, ""\" ++ [233]%N ++ runes_of_ascii """
+// " ++ [27880; 37322]%N ++ runes_of_ascii "
+// @lengthOf(
+]: float
+0:
+falsey,
+    ""// no comment"":
+    roots } , int32
+int @calculatedFrom(""`tick`"" )
+,
+    Foo lengthOf// 50% %s
+`{ , }` , rootA,zchar[
+007] msg_type
+    @lengthOf(
+u) ,
+    /// triple
+    }// " ++ [128512]%N ++ runes_of_ascii " emoji
+options // trailing space 
+{// a // b
+}
+// `tick` ""quote"" 'q'
+")).
+Eval vm_compute in ("<<<M4394>>>" ++ check (runes_of_ascii "root packet u {
+    zchar[4294967296] Header @lengthOf(uint8x),
+    charz,
+    @lengthOf(packetx)
+    uint8x lengthOf `crlf
+        line`,
+    zchar[007] o,
+    repeat u8x {
+        // " ++ [27880; 37322]%N ++ runes_of_ascii "
+        string metadata ``,
+    },
+}
+
+MetaData string_ {
+    char options1 ``,
+    As packetx `crlf
+        line`,
+    char[00] T,
+    string string_ `// not a comment`,
+    i32 lengthOf,
+    zchar[007] u,//	t
+}
+
+packet trueish {
+    // " ++ [27880; 37322]%N ++ runes_of_ascii "
+}
+
+options {
+    Foo = int16;
+    As = ' ';
+    zchar = 3
+    chars = false;
+    As = string
+}
+
+MetaData o {
+    zchar[007] i64_,
+    char[3] Logon `" ++ [233]%N ++ runes_of_ascii "`,
+    char[7] stringy `
+        `,
+}")).
+Eval vm_compute in ("<<<M3863>>>" ++ check (runes_of_ascii "options {
+    calculatedFrom = ""a	b"";
+    lengthOf = ""packet"";// 50% %s
+    Header = zchar[7];
+}
+
+packet Logon {
+    @calculatedFrom(""" ++ [28040; 24687]%N ++ runes_of_ascii """)
+    i16 charz,
+}
+
+packet asx {
+    Packet @lengthOf(tag) `crlf
+    line`,
+    @calculatedFrom(""" ++ [128512]%N ++ runes_of_ascii """)
+    char[7] i8i8 @calculatedFrom(""\n"") `line1
+    line2`,
+    i32 pack @lengthOf(f32a) `two words`,
+    falsey f32a `tab	here`,
+    @tag(3)
+    u16 lengthOf,
+    // trailing space 
+    //x
+    Foo @lengthOf(uint8x),
+    @lengthOf(chars)
+    zchar @lengthOf(stringy) `crlf
+    line`,
+    asx,/// triple
+    zchar[65535] Z9_ @calculatedFrom(""1""),
+}")).
+Eval vm_compute in ("<<<M1332>>>" ++ check (runes_of_ascii "options
+    // " ++ [27880; 37322]%N ++ runes_of_ascii "
+    { } packet float{uint16 tag	@lengthOf( trueish
+    )
+    `" ++ [28040; 24687; 31867; 22411]%N ++ runes_of_ascii "` ,
+    @tag( 65535 ) char[
+255
+// c
+/// triple
+] matchKey ,@tag( 65535 ) @calculatedFrom( ""// no comment""
+)msg_type { char lengthOf`a\` , uint16 Logon
+    @calculatedFrom( ""// no comment""),repeat
+lengthOf chars `" ++ [28040; 24687; 31867; 22411]%N ++ runes_of_ascii "`
+    , matchKey{ Foo
+    // " ++ [128512]%N ++ runes_of_ascii " emoji
+    @calculatedFrom(
+""a\\""
+    // " ++ [27880; 37322]%N ++ runes_of_ascii "
+    ) // 50% %s
+,f32 Header `it's` ,char[	007
+//
+// " ++ [27880; 37322]%N ++ runes_of_ascii "
+]A
+,} ,
+// `tick` ""quote"" 'q'
+// " ++ [128512]%N ++ runes_of_ascii " emoji
+} ,} MetaData
+    x_y_z  {
+    int32
+T ,
+tag  crc `u8 x,` ,char[ 3 ]
+metadata  ,
+}")).
+Eval vm_compute in ("<<<M238>>>" ++ check (runes_of_ascii "packet
+    Packet // a // b
+{ @calculatedFrom(
+""a	b""
+    )@calculatedFrom(
+""it's""  )
+    @calculatedFrom( ""// no comment""
+    ) trueish { char[]/// triple
+charz
+@calculatedFrom( ""\n"" )
+    , } ,@rightPad (
+'0' )	@tag(255) len{ zchar[
+// 50% %s
+// `tick` ""quote"" 'q'
+65535 ]f32a , } , f64 i8i8 `line1
+line2` , @rightPad('\x00'	) repeat
+    int `two words`
+,
+As Pad`{ , }`
+    ,
+@rightPad ('\x00' ) pack `doc`// c
+,
+@tag(	1 ) f32
+tag  ,//x
+zchar[ 3
+    // @lengthOf(
+    ] i64_ ,	uint64 trueish /// triple
+@calculatedFrom( ""CRC32"" ) , }")).
+Eval vm_compute in ("<<<M230>>>" ++ check (runes_of_ascii "options {
+// packet A { u8 x, }
+// c
+} packet stringy
+// " ++ [128512]%N ++ runes_of_ascii " emoji
+//x
+{ char[ 7 ]
+    leftPad @calculatedFrom( ""{,}"" ) , @tag(42
+// @lengthOf(
+// c
+) @leftPad
+// c
+// trailing space 
+( ' ') @lengthOf( i8i8 )stringy @calculatedFrom( // c
+""" ++ [233]%N ++ runes_of_ascii "t" ++ [233]%N ++ runes_of_ascii """	)
+    // `tick` ""quote"" 'q'
+    `u8 x,` ,	o MetaDataX
+, float32// `tick` ""quote"" 'q'
+body @lengthOf(  A ) , uint16 x `" ++ [28040; 24687; 31867; 22411]%N ++ runes_of_ascii "`, @rightPad (	)  o {uint8
+// 50% %s
+// 50% %s
+x@lengthOf(
+Header ) , } ,string a1 ,a1	@lengthOf(calculatedFrom ), } MetaData // 50% %s
+repeatCount{ T Packet,}")).
+Eval vm_compute in ("<<<M109>>>" ++ check (runes_of_ascii "root packet Pad { T crc, @tag(	255
+    ) repeat
+rootA `// not a comment`	, chars@lengthOf(
+    float
+) `two words`
+    , repeat _x u128 , @lengthOf(
+lengthOf ) repeat
+    x_y_z { char[ 10
+    ]u `
+` , a1 roots , } , /// triple
+@calculatedFrom( ""x y""
+    ) int16
+leftPad `{ , }`	, _x
+matchKey`it's`
+    , match
+Logon as metadata
+    { """ ++ [128512]%N ++ runes_of_ascii """ // 50% %s
+:
+matchKey
+    42 ://x
+u128 , // 50% %s
+42 : matchKey
+""it's""
+    // trailing space 
+    : asx ,""{,}"" : Z9_,} , // c
+stringy `" ++ [28040; 24687; 31867; 22411]%N ++ runes_of_ascii "`
+, // c
+}")).
+Eval vm_compute in ("<<<M843>>>" ++ check (runes_of_ascii "MetaData  crc	{
+float zchar
+    , }  root packet msg_type// " ++ [128512]%N ++ runes_of_ascii " emoji
+{
+    repeat
+u128
+// @lengthOf(
+//x
+{char[] body
+    , matchKey u128 ,
+}
+, repeat	chars { // " ++ [27880; 37322]%N ++ runes_of_ascii "
+match
+rootA
+    as
+    As{""packet""
+: falsey	, [ 65535 ,
+0 ]	: roots ,
+    // 50% %s
+    [
+    """ ++ [128512]%N ++ runes_of_ascii """  , // " ++ [27880; 37322]%N ++ runes_of_ascii "
+0
+]: T , }
+// " ++ [128512]%N ++ runes_of_ascii " emoji
+//x
+,	},
+} MetaData tag { char[ 3 ] repeatCount , string
+    options1
+`two words` ,char[]
+x , // a // b
+body lengthOf// @lengthOf(
+,roots i64_ , //	t
+options1 T `{ , }` ,}")).
+Eval vm_compute in ("<<<M418>>>" ++ check (runes_of_ascii "options
+{
+    Header =
+    '\x00'
+} root
+packet MetaDataX	{char[ 0123456789 ]leftPad  `tab	here`  , @lengthOf(rootA )uint8 u	``,
+match
+string_ //
+as
+    Pad	{ 255 : a1
+,// a // b
+[
+    // 50% %s
+    4294967296 ] :msg_type ,
+    [ 3
+// c
+//	t
+] :
+    //	t
+    u128 ,255	: crc ,
+[
+// trailing space 
+//
+0123456789 , ""a\""b"" ,
+    ""a\""b""
+,
+""""// trailing space 
+,""""
+    , ""CRC32"" ,
+    ""CRC32"" ] : crc// `tick` ""quote"" 'q'
+,// " ++ [27880; 37322]%N ++ runes_of_ascii "
+} ,  }packet
+asx
+{ }
+")).
+Eval vm_compute in ("<<<M3256>>>" ++ check (runes_of_ascii "// top
+MetaData // c0
+body // c1a
+  // c1b
+{ // c2
+} // c3a
+  // c3b
+root // c4
+packet // c5a
+  // c5b
+chars // c6
+{ // c7a
+  // c7b
+@lengthOf( // c8
+i64_ // c9a
+  // c9b
+) // c10
+chars ,
+    // c12
+i8i8 { // c14a
+  // c14b
+falsey @lengthOf( stringy // c17a
+  // c17b
+)
+    // c18
+`` // c19a
+  // c19b
+, // c20a
+  // c20b
+} , x // c23a
+  // c23b
+@lengthOf(
+    // c24
+A // c25a
+  // c25b
+)
+    // c26
+`tab	here` , } // c29a
+  // c29b
+")).
+Eval vm_compute in ("<<<M1404>>>" ++ check (runes_of_ascii "packet
+x
+{ @rightPad ( '0'
+    ) int
+    uint8x
+    // trailing space 
+    , match asx as
+    charz{
+    ""CRC32"" : MetaDataX  ,
+[ /// triple
+""a\\"",00 ] :
+u128  , } , char[]	f32a
+@lengthOf( zchar
+    )	`crlf
+line` , @calculatedFrom(
+""1"")match // packet A { u8 x, }
+trueish
+    as BodyLength {7 // a // b
+: falsey
+""`tick`"" :
+// `tick` ""quote"" 'q'
+// packet A { u8 x, }
+A
+// c
+// " ++ [27880; 37322]%N ++ runes_of_ascii "
+, } , @rightPad( )i16 zchar , } 	 ")).
+Eval vm_compute in ("<<<M3860>>>" ++ check (runes_of_ascii "options  
+      // c
+
+  {
+
+lengthOf= 0123456789
+x_y_z =
+
+    ""CRC32"" ;
+}
+
+root
+packet	Packet
+
+    { @rightPad (
+
+    ' ')
+char[]
+string_	@calculatedFrom(""// no comment"" 
+
+    /// triple
+	// " ++ [128512]%N ++ runes_of_ascii " emoji
+		)
+	,
+// c
+		// a // b
+    match body as	Z9_
+    {	""`tick`""
+    :
+
+    charz
+
+    ,
+
+    4294967296 : uint8x  ,00
+: x	, 
+} ,@tag( 	 //
+	3)
+@tag( 255 )/// triple
+	  repeat i64_	`a\`
+,
+	}")).
+Eval vm_compute in ("<<<M328>>>" ++ check (runes_of_ascii "options // `tick` ""quote"" 'q'
+{ packetx= 0 metadata = char[ 0123456789 ] As =42
+; msg_type
+= '0' ;}
+options{ body = ""packet""; metadata=
+false
+    ;chars=
+42 falsey =
+42 } packet body // " ++ [128512]%N ++ runes_of_ascii " emoji
+{
+@leftPad ( '\x00' ) leftPad	@lengthOf(repeatCount
+), }	MetaData  _x {
+uint16 lengthOf
+`100% of %d`,crc T,uint32// c
+Pad `
+`
+,u64 msg_type	,string_
+    u128
+    ,zchar[
+4294967296
+]
+_x	,}")).
+Eval vm_compute in ("<<<M4240>>>" ++ check (runes_of_ascii "packet
+	uint8x{
+	uint8x charz
+
+`100% of %d`
+    // c
+,
+    @rightPad 
+(' '
+)repeat
+	roots
+	{
+zchar[
+    42
+    ]
+
+_x
+
+    ,
+	asx,
+	match  i64_
+    as	f32a{  ""a\\""
+:
+falsey, 0
+    : options1, ""1""	// @lengthOf(
+:	x ,0	:
+        //
+  	u128
+
+,  [
+
+00
+	,
+4294967296	/// triple
+
+]	:len,
+
+[// c
+""`tick`"" , 
+    //x
+
+""packet"" ,
+7
+
+    ,
+    3,
+
+""" ++ [233]%N ++ runes_of_ascii "t" ++ [233]%N ++ runes_of_ascii """
+] :
+	A , }
+
+,
+    }
+, }")).
+Eval vm_compute in ("<<<M696>>>" ++ check (runes_of_ascii "packet calculatedFrom  { // " ++ [128512]%N ++ runes_of_ascii " emoji
+@calculatedFrom( ""a	b"" )
+    repeat
+    int32 Header
+    // `tick` ""quote"" 'q'
+    `a\` , }packet leftPad{ @leftPad ( ) @tag( 65535  ) @rightPad (
+    ) repeat msg_type , string charz
+@calculatedFrom( ""// no comment"" )
+    `100% of %d`, Z9_ lengthOf , @lengthOf( i64_
+    //
+    )char[ 0 ] i8i8 @calculatedFrom( """ ++ [128512]%N ++ runes_of_ascii """ )
+,
+}")).
+Eval vm_compute in ("<<<M3254>>>" ++ check (runes_of_ascii "// top
+MetaData // c0
+body // c1
+{ // c2
+} // c3
+root // c4
+packet // c5
+chars // c6
+{ // c7
+@lengthOf( // c8
+i64_ // c9
+) // c10
+chars // c11
+, // c12
+i8i8 // c13
+{ // c14
+falsey // c15
+@lengthOf( // c16
+stringy // c17
+) // c18
+`` // c19
+, // c20
+} // c21
+, // c22
+x // c23
+@lengthOf( // c24
+A // c25
+) // c26
+`tab	here` // c27
+, // c28
+} // c29
+")).
+Eval vm_compute in ("<<<M3671>>>" ++ check (runes_of_ascii "packet trueish {
+    x metadata,
+    uint16 f32a,
+    repeat leftPad {
+        match MetaDataX as lengthOf {
+            4294967296 : calculatedFrom,
+            [""a\\"", ""a\\""] : len,
+            0 : f32a,
+            [""CRC32""] : chars,
+            // @lengthOf(
+            // " ++ [128512]%N ++ runes_of_ascii " emoji
+            65535 : i8i8,
         },
     },
 }")).
-Eval vm_compute in ("<<<M723>>>" ++ check (runes_of_ascii "// c
-packet i64_ {	char[] calculatedFrom , } packet
-trueish  {@calculatedFrom(
-""a\\"" ) o { i32 falsey@lengthOf( uint8x ),
-} , } // `tick` ""quote"" 'q'
-options {// c
-Z9_ ' ' =//
-}
+Eval vm_compute in ("<<<M85>>>" ++ check (runes_of_ascii "MetaData options1
+    // c
+    { char[]x ,} MetaData
+float
+    { pack u128 , }
+    packet len{
+i32
+    float
+@lengthOf( _x ) , @lengthOf( Packet )
+    repeat crc x_y_z
+`tab	here`
+, @tag(
+00
+    ) repeat string_ pack
+    , @rightPad
+(
+'\x00'
+    )@rightPad ( '0') // 50% %s
+@calculatedFrom(//
+""" ++ [28040; 24687]%N ++ runes_of_ascii """
+) string a1, }
 ")).
-Eval vm_compute in ("<<<M1772>>>" ++ check (runes_of_ascii "packet A {
-    match k as n {
-        [
-            ""a"", ""bb"", ""c c"", ""d"", ""e"",
-            ""f"", ""g"", ""h"", ""i"", ""j"",
-            ""k""
-        ] : B,
-        2 : C,
-    },
-}")).
-Eval vm_compute in ("<<<M115>>>" ++ check (runes_of_ascii "root packet T{ }	MetaData	msg_type { i64_ //x
-i64_,  } root packet
-    // packet A { u8 x, }
-    x_y_z { }  MetaData	crc { o
-zchar`line1
-line2`
-,} packet
-x{ }")).
-Eval vm_compute in ("<<<M119>>>" ++ check (runes_of_ascii "MetaData  trueish {
-    chars	u8x // trailing space 
-,
-A chars ,i8i8 asx `tab	here`
-    ,char[ 3 ]
-body	`" ++ [233]%N ++ runes_of_ascii "`,
-    zchar[	00	]
-u128 ,
-}
-/// triple
-")).
-Eval vm_compute in ("<<<M1561>>>" ++ check (runes_of_ascii "  packet
-	A
-
-{	Inner {
-
-    match
-k
-
-as
-n
-
-    {
-
-[ 1 , 22
-
-,
-
-007
-,4
-, 
-5
-
-,  66
-, 
-7
-
-    ,8,
-9  ]
-	:
-    B	,
-	}
-,
-
-}
-
-,
-
-} ")).
-Eval vm_compute in ("<<<M1928>>>" ++ check (runes_of_ascii "packet A {
-    match k as n {
-        [
-            1, 22, 007, 4, 5,
-            66, 7, 8
-        ] : B,
-        2 : C,
-    },
-}")).
-Eval vm_compute in ("<<<M1541>>>" ++ check (runes_of_ascii "packet Logon {
-    @tag(42)
-    @rightPad(' ')
-    @leftPad()
-    repeat trueish {
-        string T,
-        // c
-    },
-}")).
-Eval vm_compute in ("<<<M654>>>" ++ check (runes_of_ascii "\ MetaData
-    // trailing space 
-    matchKey
-{ u64 chars // a // b
-,char[] lengthOf `// not a comment`
-    , //	t
-}")).
-Eval vm_compute in ("<<<M618>>>" ++ check (runes_of_ascii "MetaData
-    // trailing space 
-    matchKey
-{ u64 chars // a // b
-,lengthOf char[] `// not a comment`
-    , //	t
-}")).
-Eval vm_compute in ("<<<M75>>>" ++ check (runes_of_ascii "options { pack =0 } MetaData int{ char[	00
-    ]
-    T
-    `crlf
-line` ,  i8 string_
-,//	t
-int16
-matchKey , }
-")).
-Eval vm_compute in ("<<<M942>>>" ++ check (runes_of_ascii "packet A {
-    u16 len @lengthOf(body) `a
-
-b`,
-    u32 crc @calculatedFrom(""CRC32"") `a
-
-b`,
-    string body,
-}")).
-Eval vm_compute in ("<<<M1368>>>" ++ check (runes_of_ascii "options {
-    LittleEndian = true;
-}
-root packet P {
-    u16 a,
-    u32 Sum @calculatedFrom(""CR\
-C32""),
-}
-")).
-Eval vm_compute in ("<<<M1263>>>" ++ check (runes_of_ascii "packet calculatedFrom { @tag( 4294967296 ) // c
-u msg_type , char[ 3 ] crc @lengthOf( len ) `u8 x,` , }")).
-Eval vm_compute in ("<<<M887>>>" ++ check (runes_of_ascii "packet A {
-  match k as n {
-    [""a"", ""bb"", 007, ""d"", ""e"", 66, ""g"", ""h"", 9, ""j""] : B,
-    2 : C
-  },
-}")).
-Eval vm_compute in ("<<<M881>>>" ++ check (runes_of_ascii "packet A {
-  match k as n {
-    [1, ""bb"", 007, ""d"", 5, ""f"", 7, ""h"", 9, ""j""] : B,
-    2 : C
-  },
-}")).
-Eval vm_compute in ("<<<M1141>>>" ++ check (runes_of_ascii "packet Logon { @tag( 42 )
-// c
-@rightPad ( ' ' ) @leftPad ( ) repeat trueish { string T , } , }")).
-Eval vm_compute in ("<<<M1931>>>" ++ check (runes_of_ascii "packet o {
-    @tag(42)
-    repeat x {
-        char[0123456789] i64_,
-    },
-}// c
-
-options {
-}")).
-Eval vm_compute in ("<<<M872>>>" ++ check (runes_of_ascii "packet A {
-  match k as n {
-    [1, 22, ""c c"", 4, 5, ""f"", 7, 8, ""i""] : B,
-    2 : C
-  },
-}")).
-Eval vm_compute in ("<<<M1932>>>" ++ check (runes_of_ascii "
-packet
-o// c
-{  @tag( 42)  repeat
-
-x	{ char[
-
-0123456789 ] i64_
-	, 
-}	,}options
-{}
-")).
-Eval vm_compute in ("<<<M814>>>" ++ check (runes_of_ascii "packet A {
-  match k as n {
-    [""a"", ""bb"", ""c c"", ""d"", ""e""] : B,
-    2 : C
-  },
-}")).
-Eval vm_compute in ("<<<M1224>>>" ++ check (runes_of_ascii "packet o { @tag( 42 ) repeat x { // c
-char[ 0123456789 ] i64_ , } , } options { }")).
-Eval vm_compute in ("<<<M830>>>" ++ check (runes_of_ascii "packet A {
-  match k as n {
-    [1, ""bb"", 007, ""d"", 5, ""f""] : B
-    2 : C
-  },
-}")).
-Eval vm_compute in ("<<<M1874>>>" ++ check (runes_of_ascii "packet
-A {	match	k
-
-as n{  [  1
+Eval vm_compute in ("<<<M690>>>" ++ check (runes_of_ascii "options
+{	metadata = 00
+    }
+    packet
+metadata {
+@calculatedFrom(
+""1""  ) // @lengthOf(
+repeat//	t
+stringy {
+char[ 0123456789
+    ] crc// trailing space 
+@lengthOf(	u8x
+    /// triple
+    ) // @lengthOf(
+, metadata
+options1,char[] int
     ,
-22 , 007 ,4  ] :
-
-B
-2:C	}
-,
-
-    } ")).
-Eval vm_compute in ("<<<M805>>>" ++ check (runes_of_ascii "packet A {
-  match k as n {
-    [""a"", 22, ""c c"", 4] : B,
-    2 : C
-  },
-}")).
-Eval vm_compute in ("<<<M808>>>" ++ check (runes_of_ascii "packet A {
-  match k as n {
-    [1, 22, ""c c"", 4] : B
-    2 : C
-  },
-}")).
-Eval vm_compute in ("<<<M800>>>" ++ check (runes_of_ascii "packet A {
-  match k as n {
-    [1, 22, 007, 4] : B
-    2 : C
-  },
-}")).
-Eval vm_compute in ("<<<M781>>>" ++ check (runes_of_ascii "packet A {
-  match k as n {
-    [1, ""bb""] : B,
-    2 : C
-  },
-}")).
-Eval vm_compute in ("<<<M1683>>>" ++ check (runes_of_ascii "MetaData M {
-    u8 x `x
-        `,
-    T t `x
-        `,
-}")).
-Eval vm_compute in ("<<<M35>>>" ++ check (runes_of_ascii "MetaData trueish { char[]chars , char[] int
-    ,}
+// c
+/// triple
+}
+, // `tick` ""quote"" 'q'
+}
+// " ++ [128512]%N ++ runes_of_ascii " emoji
 ")).
-Eval vm_compute in ("<<<M54>>>" ++ check (runes_of_ascii "  MetaData
-u128{ uint32 lengthOf ,
+Eval vm_compute in ("<<<M134>>>" ++ check (runes_of_ascii "// packet A { u8 x, }
+options
+{float
+= string
+    } options { } packet options1 {} packet o{}MetaData  float{ tag
+    metadata`` , i32 // 50% %s
+o `// not a comment`
+    , u32 len
+    ,zchar[ 3 ]
+// `tick` ""quote"" 'q'
+// " ++ [27880; 37322]%N ++ runes_of_ascii "
+Header , o zchar	`` , o // @lengthOf(
+stringy `two words` //
+, }
+")).
+Eval vm_compute in ("<<<M2045>>>" ++ check (runes_of_ascii "packet	packetx { // trailing space 
+x_y_z
+{
+string
+charz ,
+string x// @lengthOf(
+`two words`
+    ,  u8x { // `tick` ""quote"" 'q'
+charz `100% of %d` // packet A@leftpad { u8 x, }
+,}// " ++ [27880; 37322]%N ++ runes_of_ascii "
+,} , }
+    // a // b
+    packet metadata {  @leftPad ( '0') repeat i32 options1 ,u64 uint8x , }
+")).
+Eval vm_compute in ("<<<M2037>>>" ++ check (runes_of_ascii "packet	packetx { // trailing space 
+x_y_z
+{
+string
+charz ,
+string x// @lengthOf(
+`two words`
+    ,  u8x { // `tick` ""quote"" 'q'
+charz `100% of %d` // packet A { u8 x, }
+,}// " ++ [27880; 37322]%N ++ runes_of_ascii "
+@tag,} , }
+    // a // b
+    packet metadata {  @leftPad ( '0') repeat i32 options1 ,u64 uint8x , }
+")).
+Eval vm_compute in ("<<<M2024>>>" ++ check (runes_of_ascii "packet	packetx { // trailing space 
+x_y_z
+{
+string
+charz ,
+string x// @lengthOf(
+`two words`
+    ,  u8x { // `tick` ""quote"" 'q'
+charz `100% of %d` // packet A { u8 x, }
+,}// " ++ [27880; 37322]%N ++ runes_of_ascii "
+,} , }
+    // a // b
+    packet metadata {  @leftPad ( '0') repeat i32 options1 ,u64 uint8x u16 }
+")).
+Eval vm_compute in ("<<<M1928>>>" ++ check (runes_of_ascii "packet	packetx { // trailing space 
+x_y_z
+{
+string
+charz ,
+string x// @lengthOf(
+`two words`
+    ,  u8x { // `tick` ""quote"" 'q'
+charz `100% of %d` // packet A { u8 x, }
+},// " ++ [27880; 37322]%N ++ runes_of_ascii "
+,} , }
+    // a // b
+    packet metadata {  @leftPad ( '0') repeat i32 options1 ,u64 uint8x , }
+")).
+Eval vm_compute in ("<<<M1926>>>" ++ check (runes_of_ascii "packet	packetx { // trailing space 
+x_y_z
+{
+string
+charz ,
+string x// @lengthOf(
+`two words`
+    ,  u8x { // `tick` ""quote"" 'q'
+charz `100% of %d` // packet A { u8 x, }
+}// " ++ [27880; 37322]%N ++ runes_of_ascii "
+,} , }
+    // a // b
+    packet metadata {  @leftPad ( '0') repeat i32 options1 ,u64 uint8x , }
+")).
+Eval vm_compute in ("<<<M2162>>>" ++ check (runes_of_ascii "packet// packet A { u8 x, }
+repeatCount	{// packet A { u8 x, }
+@leftPad ( '\x00'
+) repeat u8x MetaDataX `crlf
+line`,
+    repeat
+    char[] MetaDataX
+    ,
+u64	uint8x@calculatedFrom(""a\""b""
+// c
+// packet A { u8 x, }
+) `tab	here`
+@calculatedFrom(//
+}MetaData pack
+    {
     }
 ")).
-Eval vm_compute in ("<<<M1116>>>" ++ check (runes_of_ascii "MetaData zchar { zchar[ 3 ] Pad // c
-, }")).
-Eval vm_compute in ("<<<M1826>>>" ++ check (runes_of_ascii "
-packet 
-A  {
-u8 x `d" ++ [65279]%N ++ runes_of_ascii "` 
-,	// c" ++ [65279]%N ++ runes_of_ascii "
-}
-")).
-Eval vm_compute in ("<<<M1915>>>" ++ check (runes_of_ascii "
+Eval vm_compute in ("<<<M3561>>>" ++ check (runes_of_ascii "  options  {LittleEndian = false ;StringPrefixLenType
 
-  packet A {
-u8
-x `
-x`
-,
+=	u32 
+;ArrayPrefixLenType  =
+	u64
+; 
+FixedStringPadFromLeft =false
+; 
+FixedStringPadChar	=
+	'0' ; 
 }
-")).
-Eval vm_compute in ("<<<M1052>>>" ++ check (runes_of_ascii "packet A {
- u8 x `d" ++ [65279]%N ++ runes_of_ascii "`, // c" ++ [65279]%N ++ runes_of_ascii "
-}")).
-Eval vm_compute in ("<<<M744>>>" ++ check (runes_of_ascii "IO" ++ [65533; 1602; 65533; 4; 26]%N ++ runes_of_ascii "^r" ++ [65533]%N ++ runes_of_ascii "yC9" ++ [65533]%N ++ runes_of_ascii "K" ++ [65533]%N ++ runes_of_ascii "=" ++ [65533; 65533]%N ++ runes_of_ascii "7" ++ [65533; 65533; 65533]%N ++ runes_of_ascii "t" ++ [65533]%N)).
-Eval vm_compute in ("<<<M225>>>" ++ check (runes_of_ascii "packet
-    matchKey{ }
-")).
-Eval vm_compute in ("<<<M1785>>>" ++ check (runes_of_ascii "
 packet
-As
+Fill	{
+
+zchar[
+
+6 ] 
+price
+	, } root  packet Quote
 
 {
+Fill  ,
+float32	count, repeat
 
+f64
+	OrderId
+,	} ")).
+Eval vm_compute in ("<<<M800>>>" ++ check (runes_of_ascii "root
+    packet float
+    {@calculatedFrom( ""// no comment"" ) Pad	uint8x // a // b
+`tab	here` , @leftPad  ()repeat pack{
+i8 packetx
+`doc`
+, } ,
+zchar[ 0123456789 ]metadata ,
+@rightPad
+    ()
+    @lengthOf( leftPad ) repeat
+    char[
+    7] u8x `line1
+line2` ,
+}
+
+")).
+Eval vm_compute in ("<<<M2197>>>" ++ check (runes_of_ascii "packet// packet A { u8 x, }
+repeatCount	{// packet A { u8 x, }
+@leftPad ( '\x00'
+) repeat u8x '1'MetaDataX `crlf
+line`,
+    repeat
+    char[] MetaDataX
+    ,
+u64	uint8x@calculatedFrom(""a\""b""
+// c
+// packet A { u8 x, }
+) `tab	here`
+,//
+}MetaData pack
+    {
+    }
+")).
+Eval vm_compute in ("<<<M2203>>>" ++ check (runes_of_ascii "packet// packet A { u8 x, }
+repeatCount	{// packet A { u8 x, }
+@leftPad ( '\x00'
+) repeat u8x MetaDataX `crlf
+line`,
+    repeat
+    char[] MetaDataX
+    ,
+u64	uint8x@calculatedFrom(""a\""b""
+// c
+// packet A { u8 x, }
+" ++ [0]%N ++ runes_of_ascii ") `tab	here`
+,//
+}MetaData pack
+    {
+    }
+")).
+Eval vm_compute in ("<<<M2126>>>" ++ check (runes_of_ascii "packet// packet A { u8 x, }
+repeatCount	{// packet A { u8 x, }
+@leftPad ( '\x00'
+) repeat u8x MetaDataX `crlf
+line`,
+    repeat
+    char[] MetaDataX
+    u64
+,	uint8x@calculatedFrom(""a\""b""
+// c
+// packet A { u8 x, }
+) `tab	here`
+,//
+}MetaData pack
+    {
+    }
+")).
+Eval vm_compute in ("<<<M867>>>" ++ check (runes_of_ascii "root packet
+falsey { @tag( 0123456789 )leftPad , repeat o
+    // @lengthOf(
+    metadata,
+calculatedFrom @lengthOf(  pack) , repeat int{
+// packet A { u8 x, }
+//
+int8 zchar// @lengthOf(
+, float32 float
+`100% of %d` , repeat u64 repeatCount
+    ,
+    } ,	}
+
+")).
+Eval vm_compute in ("<<<M2207>>>" ++ check (runes_of_ascii "packet// packet A { u8 x, }
+repeatCount	{// packet A { u8 x, }
+@leftPad ( '\x00'
+) repeat u8x a" ++ [769]%N ++ runes_of_ascii "b `crlf
+line`,
+    repeat
+    char[] MetaDataX
+    ,
+u64	uint8x@calculatedFrom(""a\""b""
+// c
+// packet A { u8 x, }
+) `tab	here`
+,//
+}MetaData pack
+    {
+    }
+")).
+Eval vm_compute in ("<<<M1627>>>" ++ check (runes_of_ascii "packet calculatedFrom
+{ @calculatedFrom( ""a\\"" ) zchar[ 4294967296 ]
+calculatedFrom@lengthOf( pack )	`100% of %d` ,char[]body@calculatedFrom( ""// no comment"" )  ,
+@tag( 007) //x
+'1' int8
+leftPad`it's` , repeat pack
+    { repeat char[ 3] body
+,},
+}")).
+Eval vm_compute in ("<<<M1609>>>" ++ check (runes_of_ascii "packet calculatedFrom
+{ @calculatedFrom( ""a\\"" ) zchar[ 4294967296 ]
+calculatedFrom@lengthOf( pack )	`100% of %d` ,char[]body@calculatedFrom( ""// no comment"" )  ,
+@tag( 007) //x
+int8
+leftPad`it's` , repeat pack
+    { repeat char[ 3] body
+,},
+} }")).
+Eval vm_compute in ("<<<M4478>>>" ++ check (runes_of_ascii "  options
+	{
+i8i8 = 
+""// no comment""
+;lengthOf  =  false 
+    // " ++ [128512]%N ++ runes_of_ascii " emoji
+// a // b
+    	;
+	    //x
+
+	body='\x00' ; 
+T
+= '\x00'
+//	t
+  //
+
+  ;
+} root
+
+    packet	trueish{	//x
+  string body
+
+`100% of %d` 
+,
+repeat
+
+u8 u8x
+`line1
+line2`,
+    }")).
+Eval vm_compute in ("<<<M1565>>>" ++ check (runes_of_ascii "packet calculatedFrom
+{ @calculatedFrom( ""a\\"" ) zchar[ 4294967296 ]
+calculatedFrom@lengthOf( pack )	`100% of %d` ,char[]body@calculatedFrom( ""// no comment"" )  ,
+@tag( 007) //x
+int8
+leftPad`it's` , repeat pack
+    repeat { char[ 3] body
+,},
+}")).
+Eval vm_compute in ("<<<M4412>>>" ++ check (runes_of_ascii "
+//x
+    options
+{falsey// " ++ [27880; 37322]%N ++ runes_of_ascii "
+    =
+00
+	pack
+=  // @lengthOf(
+
+  '0'	x_y_z
+=  ""\" ++ [233]%N ++ runes_of_ascii """
+
+; 
+} 
+// " ++ [128512]%N ++ runes_of_ascii " emoji
+
+options 
+{	}
+root 
+  // " ++ [27880; 37322]%N ++ runes_of_ascii "
+// " ++ [27880; 37322]%N ++ runes_of_ascii "
+packet
+_x 	 // @lengthOf(
+
+	{
+zchar[ 1  ]	len
+	@calculatedFrom(// a // b
+""CRC32""
+    )`" ++ [28040; 24687; 31867; 22411]%N ++ runes_of_ascii "`
+
+    ,}
+
+")).
+Eval vm_compute in ("<<<M1573>>>" ++ check (runes_of_ascii "packet calculatedFrom
+{ @calculatedFrom( ""a\\"" ) zchar[ 4294967296 ]
+calculatedFrom@lengthOf( pack )	`100% of %d` ,char[]body@calculatedFrom( ""// no comment"" )  ,
+@tag( 007) //x
+int8
+leftPad`it's` , repeat pack
+    { repeat  3] body
+,},
+}")).
+Eval vm_compute in ("<<<M1421>>>" ++ check (runes_of_ascii "packet 3
+{ @calculatedFrom( ""a\\"" ) zchar[ 4294967296 ]
+calculatedFrom@lengthOf( pack )	`100% of %d` ,char[]body@calculatedFrom( ""// no comment"" )  ,
+@tag( 007) //x
+int8
+leftPad`it's` , repeat pack
+    { repeat char[ 3] body
+,},
+}")).
+Eval vm_compute in ("<<<M1975>>>" ++ check (runes_of_ascii "packet	packetx { // trailing space 
+x_y_z
+{
+string
+charz ,
+string x// @lengthOf(
+`two words`
+    ,  u8x { // `tick` ""quote"" 'q'
+charz `100% of %d` // packet A { u8 x, }
+,}// " ++ [27880; 37322]%N ++ runes_of_ascii "
+,} , }
+    // a // b
+    packet metadata {")).
+Eval vm_compute in ("<<<M190>>>" ++ check (runes_of_ascii "// a // b
+root packet packetx
+{ string matchKey
+, tag chars
+    `u8 x,`
+    ,
+}
+MetaData
+Foo {stringy len , // @lengthOf(
+float32 matchKey ,int64 lengthOf,}MetaData i8i8  { char[10 ]body, } // `tick` ""quote"" 'q'")).
+Eval vm_compute in ("<<<M3398>>>" ++ check (runes_of_ascii "// top
+packet
+    // c0
+o
+    // c1
+{
+    // c2
+@tag(
+    // c3
+4294967296
+    // c4
+)
+    // c5
+options1
+    // c6
+@lengthOf(
+    // c7
+u8x
+    // c8
+)
+    // c9
+`" ++ [233]%N ++ runes_of_ascii "`
+    // c10
+,
+    // c11
+}
+    // c12
+")).
+Eval vm_compute in ("<<<M1039>>>" ++ check (runes_of_ascii "MetaData packetx
+    //x
+    {// a // b
+i16 _x , zchar[ 0123456789 ]x_y_z
+, BodyLength roots // " ++ [128512]%N ++ runes_of_ascii " emoji
+, zchar[ 1 /// triple
+] lengthOf , options1
+// a // b
+// packet A { u8 x, }
+Pad `it's` , }
+")).
+Eval vm_compute in ("<<<M234>>>" ++ check (runes_of_ascii "packet Packet {	@calculatedFrom(
+""// no comment""	)
+    @lengthOf( T )
+    uint16 msg_type
+    ,@tag( 10 // trailing space 
+) char[ 4294967296
+]tag  ,	repeat options1 rootA
+, }
+// 50% %s
+")).
+Eval vm_compute in ("<<<M1542>>>" ++ check (runes_of_ascii "packet calculatedFrom
+{ @calculatedFrom( ""a\\"" ) zchar[ 4294967296 ]
+calculatedFrom@lengthOf( pack )	`100% of %d` ,char[]body@calculatedFrom( ""// no comment"" )  ,
+@tag( 007) //x
+int8")).
+Eval vm_compute in ("<<<M1358>>>" ++ check (runes_of_ascii "packet Header {
+match T as msg_type { 1 : leftPad ,  """ ++ [128512]%N ++ runes_of_ascii """ : crc , """ ++ [233]%N ++ runes_of_ascii "t" ++ [233]%N ++ runes_of_ascii """:
+As ""\" ++ [233]%N ++ runes_of_ascii """ : body
+    ,	10 : i64_ , [10 , ""a\""b"" ] //x
+: Header , } // trailing space 
+, } // @lengthOf(")).
+Eval vm_compute in ("<<<M1021>>>" ++ check (runes_of_ascii "packet T {// packet A { u8 x, }
+@leftPad
+(
+'0' ) zchar[10] string_ ,
+    @calculatedFrom( ""a\\"" )
+    A@calculatedFrom(
+""a\\"" ) , char[ //	t
+3 ] i8i8 , }
+// 50% %s
+")).
+Eval vm_compute in ("<<<M2434>>>" ++ check (runes_of_ascii "
+packet MetaDataX
+float64
+    @leftPad
+( // a // b
+'0'
+) i8 u @lengthOf(
+MetaDataX
+    ) `say ""hi""` ,	} MetaData BodyLength {
+    asx
+x_y_z `" ++ [233]%N ++ runes_of_ascii "`
+, uint64 u128 , }
+")).
+Eval vm_compute in ("<<<M1718>>>" ++ check (runes_of_ascii "options { } packet Packet{char[] i64_ ,
+@tag(
+    255) match
+crc as i8i8{""{,}"" ""{,}"" : trueish """" : Pad , ""a\\"" :
+Foo ,
+    1 :packetx
+, """ ++ [128512]%N ++ runes_of_ascii """ : trueish , } , }")).
+Eval vm_compute in ("<<<M2435>>>" ++ check (runes_of_ascii "
+packet MetaDataX
+{
+    @leftPad
+( // a // b
+'0'
+) i8 u @lengthOf(
+MetaDataX
+    ) `say ""hi""` ,	} MetaData BodyLength {
+    asx
+x_y_z `" ++ [233]%N ++ runes_of_ascii "`
+, uint64 u128 , } }
+")).
+Eval vm_compute in ("<<<M2355>>>" ++ check (runes_of_ascii "
+packet MetaDataX
+{
+    @leftPad
+( // a // b
+)
+'0' i8 u @lengthOf(
+MetaDataX
+    ) `say ""hi""` ,	} MetaData BodyLength {
+    asx
+x_y_z `" ++ [233]%N ++ runes_of_ascii "`
+, uint64 u128 , }
+")).
+Eval vm_compute in ("<<<M1758>>>" ++ check (runes_of_ascii "options { } packet Packet{char[] i64_ ,
+@tag(
+    255) match
+crc as i8i8{""{,}"" : trueish """" : Pad , ""a\\"" : :
+Foo ,
+    1 :packetx
+, """ ++ [128512]%N ++ runes_of_ascii """ : trueish , } , }")).
+Eval vm_compute in ("<<<M1654>>>" ++ check (runes_of_ascii "options { } packet {Packet char[] i64_ ,
+@tag(
+    255) match
+crc as i8i8{""{,}"" : trueish """" : Pad , ""a\\"" :
+Foo ,
+    1 :packetx
+, """ ++ [128512]%N ++ runes_of_ascii """ : trueish , } , }")).
+Eval vm_compute in ("<<<M1694>>>" ++ check (runes_of_ascii "options { } packet Packet{char[] i64_ ,
+@tag(
+    255) crc
+match as i8i8{""{,}"" : trueish """" : Pad , ""a\\"" :
+Foo ,
+    1 :packetx
+, """ ++ [128512]%N ++ runes_of_ascii """ : trueish , } , }")).
+Eval vm_compute in ("<<<M2397>>>" ++ check (runes_of_ascii "
+packet MetaDataX
+{
+    @leftPad
+( // a // b
+'0'
+) i8 u @lengthOf(
+MetaDataX
+    ) `say ""hi""` ,	} MetaData BodyLength {
+    asx
+x_y_z 
+, uint64 u128 , }
+")).
+Eval vm_compute in ("<<<M3730>>>" ++ check (runes_of_ascii "MetaData i8i8 {
+    i64 chars `two words`,
+    int32 repeatCount `u8 x,`,
+    float options1,
+    i64 tag,
+    char[] As `{ , }`,
+    Foo roots `it's`,
+}")).
+Eval vm_compute in ("<<<M1785>>>" ++ check (runes_of_ascii "options { } packet Packet{char[] i64_ ,
+@tag(
+    255) match
+crc as i8i8{""{,}"" : trueish """" : Pad , ""a\\"" :
+Foo ,
+    1 :int8
+, """ ++ [128512]%N ++ runes_of_ascii """ : trueish , } , }")).
+Eval vm_compute in ("<<<M1059>>>" ++ check (runes_of_ascii "packet f32a
+/// triple
+// " ++ [27880; 37322]%N ++ runes_of_ascii "
+{// @lengthOf(
+repeat
+// trailing space 
+/// triple
+uint8 i8i8 ,} root
+    packet u8x {
+    } MetaData T // " ++ [128512]%N ++ runes_of_ascii " emoji
+{}
+")).
+Eval vm_compute in ("<<<M982>>>" ++ check (runes_of_ascii "root packet
+Header{	@leftPad ( '\x00') f32a	string_
+, @calculatedFrom(	""{,}"") options1 @calculatedFrom(
+// trailing space 
+/// triple
+""" ++ [128512]%N ++ runes_of_ascii """ ),
 }
 ")).
-Eval vm_compute in ("<<<M1038>>>" ++ check (runes_of_ascii "packet A {
-}// c 	")).
-Eval vm_compute in ("<<<M1081>>>" ++ check (runes_of_ascii "options { // a
- }")).
-Eval vm_compute in ("<<<M323>>>" ++ check (runes_of_ascii "// c
+Eval vm_compute in ("<<<M953>>>" ++ check (runes_of_ascii "// @lengthOf(
+MetaData lengthOf{ pack roots `doc` ,
+i64_ chars ,
+    /// triple
+    string Packet
+`a\`,
+//	t
+// " ++ [27880; 37322]%N ++ runes_of_ascii "
+float64 u `{ , }` , }
+")).
+Eval vm_compute in ("<<<M1162>>>" ++ check (runes_of_ascii "options { Packet = 65535 BodyLength	=
+    // `tick` ""quote"" 'q'
+    int64 } options {
+    calculatedFrom = '0';
+    Packet= ""packet"" }
+")).
+Eval vm_compute in ("<<<M1069>>>" ++ check (runes_of_ascii "MetaData	rootA { uint8x MetaDataX	,
+char[] roots  , roots i8i8 , uint16
+// packet A { u8 x, }
+// 50% %s
+o
+, int16 lengthOf ,
+    }
+")).
+Eval vm_compute in ("<<<M1258>>>" ++ check (runes_of_ascii "packet repeatCount
+{ @leftPad ( '\x00' )
+x_y_z @calculatedFrom( ""\" ++ [233]%N ++ runes_of_ascii """	)
+    , @calculatedFrom( ""\" ++ [233]%N ++ runes_of_ascii """	) zchar
+T `{ , }` , } //	t")).
+Eval vm_compute in ("<<<M3279>>>" ++ check (runes_of_ascii "MetaData metadata { } MetaData rootA { i8 i64_
+// c
+, roots options1 `a\` , lengthOf Header , Z9_ Foo , int16 BodyLength , }")).
+Eval vm_compute in ("<<<M4147>>>" ++ check (runes_of_ascii "MetaData float {
+    uint8 BodyLength,
+}
 
+MetaData charz {
+    // c
+    float32 trueish `a\`,
+    i16 metadata `say ""hi""`,
+}")).
+Eval vm_compute in ("<<<M2113>>>" ++ check (runes_of_ascii "packet// packet A { u8 x, }
+repeatCount	{// packet A { u8 x, }
+@leftPad ( '\x00'
+) repeat u8x MetaDataX `crlf
+line`,")).
+Eval vm_compute in ("<<<M4137>>>" ++ check (runes_of_ascii "  root
+
+    packet
+T
+
+    {	}
+	MetaData	msg_type {
+i64_
+i64_ ,  } 
+/// triple
+  root 
+packet
+    x_y_z {}
+")).
+Eval vm_compute in ("<<<M3318>>>" ++ check (runes_of_ascii "MetaData // c
+float { uint8 BodyLength , } MetaData charz { float32 trueish `a\` , i16 metadata `say ""hi""` , }")).
+Eval vm_compute in ("<<<M3350>>>" ++ check (runes_of_ascii "MetaData float { uint8 BodyLength , } MetaData charz { float32 trueish `a\` , i16 metadata `say ""hi""` // c
+, }")).
+Eval vm_compute in ("<<<M3008>>>" ++ check (runes_of_ascii "packet A {
+  match k as n {
+    [""a"", ""bb"", 007, ""d"", ""e"", 66, ""g"", ""h"", 9, ""j"", ""k""] : B,
+    2 : C
+  },
+}")).
+Eval vm_compute in ("<<<M3033>>>" ++ check (runes_of_ascii "packet A {
+    Inner {
+        u8 x `a
+b`,
+        Deep {
+            u8 y `a
+b`,
+        },
+    },
+}")).
+Eval vm_compute in ("<<<M3027>>>" ++ check (runes_of_ascii "packet A {
+    Inner {
+        u8 x `a
+b`,
+        Deep {
+            u8 y `a
+b`,
+        },
+    },
+}")).
+Eval vm_compute in ("<<<M2211>>>" ++ check (runes_of_ascii "MetaData MetaData _x {string x `// not a comment` , string
+i64_ // trailing space 
+`a\` ,
+    }
+")).
+Eval vm_compute in ("<<<M2266>>>" ++ check (runes_of_ascii "MetaData _x {string x `// not a comment` , string
+i64_ // trailing space 
+`a\` ,
+    @leftPad
+")).
+Eval vm_compute in ("<<<M2994>>>" ++ check (runes_of_ascii "packet A {
+  match k as n {
+    [1, 22, ""c c"", 4, 5, ""f"", 7, 8, ""i"", 10] : B
+    2 : C
+  },
+}")).
+Eval vm_compute in ("<<<M2230>>>" ++ check (runes_of_ascii "MetaData _x {string x x `// not a comment` , string
+i64_ // trailing space 
+`a\` ,
+    }
+")).
+Eval vm_compute in ("<<<M2963>>>" ++ check (runes_of_ascii "packet A {
+  match k as n {
+    [1, ""bb"", 007, ""d"", 5, ""f"", 7, ""h""] : B,
+    2 : C
+  },
+}")).
+Eval vm_compute in ("<<<M2229>>>" ++ check (runes_of_ascii "MetaData _x {string  `// not a comment` , string
+i64_ // trailing space 
+`a\` ,
+    }
+")).
+Eval vm_compute in ("<<<M2972>>>" ++ check (runes_of_ascii "packet A {
+  match k as n {
+    [1, 22, 007, 4, 5, 66, 7, 8, 9] : B,
+    2 : C
+  },
+}")).
+Eval vm_compute in ("<<<M2951>>>" ++ check (runes_of_ascii "packet A {
+  match k as n {
+    [1, ""bb"", 007, ""d"", 5, ""f"", 7] : B
+    2 : C
+  },
+}")).
+Eval vm_compute in ("<<<M3660>>>" ++ check (runes_of_ascii "packet orderItem {
+    u8 a,
+}
+
+root packet newOrder {
+    orderItem,
+    u8 x,
+}")).
+Eval vm_compute in ("<<<M2931>>>" ++ check (runes_of_ascii "packet A {
+  match k as n {
+    [""a"", ""bb"", 007, ""d"", ""e""] : B
+    2 : C
+  },
+}")).
+Eval vm_compute in ("<<<M4228>>>" ++ check (runes_of_ascii "
+packet A {match
+    k
+as  n
+
+    {	[ 1 , 22
+	]
+:  B 2
+    :C
+	}	,
+    }
 
 ")).
-Eval vm_compute in ("<<<M205>>>" ++ check (runes_of_ascii "
+Eval vm_compute in ("<<<M3383>>>" ++ check (runes_of_ascii "MetaData _x { f64 charz `tab	here` , } options {
+// c
+BodyLength = """ ++ [233]%N ++ runes_of_ascii "t" ++ [233]%N ++ runes_of_ascii """ ; }")).
+Eval vm_compute in ("<<<M3843>>>" ++ check (runes_of_ascii "packet Inner {
+    u8 a,
+}
+
+root packet P {
+    Inner ref_obj,
+    u8 x,
+}")).
+Eval vm_compute in ("<<<M4100>>>" ++ check (runes_of_ascii "  packet
+    A
+
+{
+    match k as n  {  1
+
+    :
+B 
+, // c
+    }  ,}
+")).
+Eval vm_compute in ("<<<M2902>>>" ++ check (runes_of_ascii "packet A {
+  match k as n {
+    [1, 22, ""c c""] : B,
+    2 : C
+  },
+}")).
+Eval vm_compute in ("<<<M4378>>>" ++ check (runes_of_ascii "MetaData pack {
+    // `tick` ""quote"" 'q'
+    uint16 Logon `" ++ [28040; 24687; 31867; 22411]%N ++ runes_of_ascii "`,
+}")).
+Eval vm_compute in ("<<<M3484>>>" ++ check (runes_of_ascii "root packet P {
+    u8 s_u8,
+    repeat u8 r_u8,
+    u16 b_len,
+}
+")).
+Eval vm_compute in ("<<<M2751>>>" ++ check (runes_of_ascii "options @tag( @tag( match uint16 [ { u16 char packet , ] uint16")).
+Eval vm_compute in ("<<<M722>>>" ++ check (runes_of_ascii "MetaData roots { zchar[0123456789] metadata `it's`	, } // " ++ [27880; 37322]%N)).
+Eval vm_compute in ("<<<M3638>>>" ++ check (runes_of_ascii "root
+	packet len
+    { }  root  packet
+i8i8 	 //
+	  {	}
+")).
+Eval vm_compute in ("<<<M2344>>>" ++ check (runes_of_ascii "
+MetaData Pad{
+'\x01' u32 rootA `line1
+line2` ,
+    }
+")).
+Eval vm_compute in ("<<<M3221>>>" ++ check (runes_of_ascii "packet A { repeat // a
+ B // b
+ b // c
+ `d` // e
+ , }")).
+Eval vm_compute in ("<<<M515>>>" ++ check (runes_of_ascii "
+MetaData x  { Packet // " ++ [128512]%N ++ runes_of_ascii " emoji
+leftPad `it's` ,}")).
+Eval vm_compute in ("<<<M2608>>>" ++ check (runes_of_ascii "packet A { x @lengthOf(y) @calculatedFrom(""c""), }")).
+Eval vm_compute in ("<<<M2318>>>" ++ check (runes_of_ascii "
+MetaData Pad{
+u32 rootA `line1
+line2` 
+    }
+")).
+Eval vm_compute in ("<<<M3028>>>" ++ check (runes_of_ascii "MetaData M {
+    u8 x `a
+b`,
+    T t `a
+b`,
+}")).
+Eval vm_compute in ("<<<M3064>>>" ++ check (runes_of_ascii "MetaData M {
+    u8 x `
+x`,
+    T t `
+x`,
+}")).
+Eval vm_compute in ("<<<M3250>>>" ++ check (runes_of_ascii "MetaData zchar { zchar[ 3 ] Pad , }
+// c
+")).
+Eval vm_compute in ("<<<M726>>>" ++ check (runes_of_ascii "options
+{ i8i8 ='\x00'int
+=true ; } 	 ")).
+Eval vm_compute in ("<<<M1676>>>" ++ check (runes_of_ascii "options { } packet Packet{char[] i64_")).
+Eval vm_compute in ("<<<M4146>>>" ++ check (runes_of_ascii "
+
+  root
+packet  A{  u8
+
+x `%`
+
+,}
+")).
+Eval vm_compute in ("<<<M2640>>>" ++ check (runes_of_ascii "packet A { @tag(1) @tag(2) u8 x, }")).
+Eval vm_compute in ("<<<M333>>>" ++ check (runes_of_ascii "
+options{ }
+packet leftPad	{}
+")).
+Eval vm_compute in ("<<<M927>>>" ++ check (runes_of_ascii "root packet  repeatCount {
+}
+")).
+Eval vm_compute in ("<<<M3048>>>" ++ check (runes_of_ascii "packet A {
+    u8 x `a
+
+b`,
+}")).
+Eval vm_compute in ("<<<M3060>>>" ++ check (runes_of_ascii "packet A {
+    u8 x `
+x`,
+}")).
+Eval vm_compute in ("<<<M1289>>>" ++ check (runes_of_ascii "
+root
+packet len
+{
+    }
+")).
+Eval vm_compute in ("<<<M3849>>>" ++ check (runes_of_ascii "root packet
+
+i8i8
+
+{ }
+")).
+Eval vm_compute in ("<<<M454>>>" ++ check (runes_of_ascii "
+root packet
+As {}
 
 ")).
+Eval vm_compute in ("<<<M363>>>" ++ check (runes_of_ascii "packet lengthOf{	}
+")).
+Eval vm_compute in ("<<<M2329>>>" ++ check (runes_of_ascii "
+MetaData Pad{
+u3")).
+Eval vm_compute in ("<<<M3174>>>" ++ check (runes_of_ascii "packet A {
+}
+// c" ++ [8203]%N)).
+Eval vm_compute in ("<<<M3107>>>" ++ check (runes_of_ascii "packet A {
+}// c" ++ [12288]%N)).
+Eval vm_compute in ("<<<M2853>>>" ++ check (runes_of_ascii "P""_z/DJ`P<};\Xy/")).
+Eval vm_compute in ("<<<M3641>>>" ++ check (runes_of_ascii "packet Z9_ {
+}")).
+Eval vm_compute in ("<<<M465>>>" ++ check (runes_of_ascii "options
+{	}")).
+Eval vm_compute in ("<<<M2710>>>" ++ check (runes_of_ascii "-;]VJ>hQd")).
+Eval vm_compute in ("<<<M2487>>>" ++ check (runes_of_ascii "matches")).
+Eval vm_compute in ("<<<M899>>>" ++ check (runes_of_ascii "// c
+")).
+Eval vm_compute in ("<<<M3143>>>" ++ check (runes_of_ascii "// c" ++ [8233]%N)).
+Eval vm_compute in ("<<<M2701>>>" ++ check (runes_of_ascii "
+	 ")).
+Eval vm_compute in ("<<<M2568>>>" ++ check (runes_of_ascii "a" ++ [11]%N ++ runes_of_ascii "b")).
+Eval vm_compute in ("<<<M2820>>>" ++ check ([65533]%N ++ runes_of_ascii "n")).
